@@ -7,12 +7,14 @@
    (the tree the heap holds below t.root, read back by reify, compared through the abstraction tabs that
    drops stale cells: a stale cell of the heap is a stale POINTER, a stale cell of the model a stale VALUE). *)
 From GoArt Require Import Base.Bytes Model.Node4 Model.Node16 Model.Node Model.Tree Model.Iter Model.Api
-  Spec.NodeSpec Spec.TreeSpec Proofs.BytesFacts Proofs.NodeFacts Proofs.TreeBasics
+  Spec.NodeSpec Spec.TreeSpec Proofs.BytesFacts Proofs.NodeFacts Proofs.TreeBasics Proofs.InsertFacts
   Model.Pool Proofs.PoolFacts Model.PoolTree Proofs.PoolTreeFacts Model.GoNode Model.GoTree Model.GoHeap
   Gen.NodeGen Gen.TreeGen Proofs.NodeAuxList Proofs.TranslateNodeFacts Proofs.TranslateTreeFacts Gen.MutGen.
 From Coq Require Import ZifyN ZifyNat ZifyBool.
 Ltac Zify.zify_post_hook ::= Z.div_mod_to_equations.
 Open Scope N_scope.
+
+
 
 
 
@@ -2130,12 +2132,60 @@ Proof.
   exact (delete_top_sim _ keyS colKey (collation_delete_loop_sim keyS colKey) (collation_delete_leaf keyS colKey) h root ot F size os pm).
 Qed.
 
+(* t.size after Delete: -1 exactly when the method returns true *)
+Lemma xdo_delete_size : forall st gk tk os p,
+  match snd (fst (xdo_delete st gk tk os p)) with
+  | OBool true => xsize (fst (fst (xdo_delete st gk tk os p))) = (xsize st - 1)%Z
+  | OBool false => xsize (fst (fst (xdo_delete st gk tk os p))) = xsize st
+  | _ => True
+  end.
+Proof.
+  intros [r s] gk tk os p. unfold xdo_delete. cbn [xroot xsize].
+  destruct r as [[lgk ltk lv|n]|]; cbn [fst snd xsize]; try reflexivity.
+  - destruct (beq lgk gk); reflexivity.
+  - destruct (xdelete_in _ _ _ _ _ _ _) as [[[t'| |] o] q]; reflexivity.
+Qed.
+Corollary delete_top_size : forall L gk tk, del_loop_spec L gk tk -> del_leaf_spec L gk ->
+  forall h root ot F size os pm,
+  repr_root h root ot F -> zero_pool pm -> isbytes tk = true -> match ot with Some t => xfit t | None => True end ->
+  match delete_top L (key_fuel tk) h root size os (map_pool pm) with
+  | MDone _ _ size' _ _ ret => size' = if ret then (size - 1)%Z else size
+  | _ => True
+  end.
+Proof.
+  intros L gk tk HL HLf h root ot F size os pm Hr Hzp Hbt Hfit.
+  pose proof (delete_top_sim L gk tk HL HLf h root ot F size os pm Hr Hzp Hbt Hfit) as H. cbv zeta in H.
+  pose proof (xdo_delete_size (mkXstate ot size) gk tk os pm) as S. cbn [xsize] in S.
+  destruct (delete_top L (key_fuel tk) h root size os (map_pool pm)) as [h' root' size' os' p' ret| |]; try exact I.
+  destruct H as (Eo & -> & _). rewrite Eo in S. destruct ret; exact S.
+Qed.
+Theorem gen_alpha_delete_size : forall h root ot F size keyS os pm,
+  repr_root h root ot F -> zero_pool pm -> isbytes (keyS ++ [0]) = true -> match ot with Some t => xfit t | None => True end ->
+  match g_alpha_delete (key_fuel (keyS ++ [0])) h root size keyS os (map_pool pm) with
+  | MDone _ _ size' _ _ ret => size' = if ret then (size - 1)%Z else size
+  | _ => True
+  end.
+Proof.
+  intros h root ot F size keyS os pm.
+  exact (delete_top_size _ _ _ (alpha_delete_loop_sim (keyS ++ [0])) (alpha_delete_leaf (keyS ++ [0])) h root ot F size os pm).
+Qed.
+Theorem gen_collation_delete_size : forall h root ot F size keyS colKey os pm,
+  repr_root h root ot F -> zero_pool pm -> isbytes colKey = true -> match ot with Some t => xfit t | None => True end ->
+  match g_collation_delete (key_fuel colKey) h root size keyS colKey os (map_pool pm) with
+  | MDone _ _ size' _ _ ret => size' = if ret then (size - 1)%Z else size
+  | _ => True
+  end.
+Proof.
+  intros h root ot F size keyS colKey os pm.
+  exact (delete_top_size _ _ _ (collation_delete_loop_sim keyS colKey) (collation_delete_leaf keyS colKey) h root ot F size os pm).
+Qed.
+
 (* ---- the hypotheses are satisfiable: a concrete heap holding a three-key tree ---- *)
 Definition ex3_l1 : atree := ALeaf 0%nat [97; 0] [97; 0] 1.
 Definition ex3_l2 : atree := ALeaf 1%nat [98; 0] [98; 0] 2.
 Definition ex3_l3 : atree := ALeaf 2%nat [99; 0] [99; 0] 3.
 Definition ex3_node : xnode atree :=
-  fst (xadd (fst (xadd (fst (xadd (xzero K4) 97 ex3_l1 [] [])) 98 ex3_l2 [] [])) 99 ex3_l3 [] []).
+  fst (xadd (fst (xadd (fst (xadd (fst (xnew4 0 [98; 0] [] [])) 97 ex3_l1 [] [])) 98 ex3_l2 [] [])) 99 ex3_l3 [] []).
 Definition ex3_tree : atree := AInner 3%nat ex3_node.
 Definition ex3_heap : heap :=
   snd (alloc (snd (alloc (snd (alloc (snd (alloc heap0 (aobj ex3_l1))) (aobj ex3_l2))) (aobj ex3_l3))) (aobj ex3_tree)).
@@ -2143,7 +2193,8 @@ Definition ex3_heap : heap :=
 Lemma ex3_xwf : xwf ex3_node /\ kids ex3_node = [(97, ex3_l1); (98, ex3_l2); (99, ex3_l3)].
 Proof.
   assert (Hz : zero_pool (@nil (xnode atree))) by constructor.
-  destruct (xadd_sim (xzero K4) 97 ex3_l1 [] [] xwf_zero4 Hz) as (E1 & X1); [lia|reflexivity|].
+  destruct (xnew4_sim 0 [98; 0] [] (@nil (xnode atree)) Hz) as (E0 & X0).
+  destruct (xadd_sim _ 97 ex3_l1 [] [] X0 Hz) as (E1 & X1); [lia|vm_compute; reflexivity|].
   destruct (xadd_sim _ 98 ex3_l2 [] [] X1 Hz) as (E2 & X2); [lia|vm_compute; reflexivity|].
   destruct (xadd_sim _ 99 ex3_l3 [] [] X2 Hz) as (E3 & X3); [lia|vm_compute; reflexivity|].
   split; [exact X3|]. vm_compute. reflexivity.
@@ -2200,4 +2251,1859 @@ Proof.
   pose proof (gen_alpha_delete_sim ex3_heap (Some 3%nat) (Some (strip ex3_tree)) _ 3 [98] [] []
                 ex3_repr (Forall_nil _) eq_refl ex3_xfit) as H.
   exact I.
+Qed.
+
+(* ================= R0. rmap only looks at the registered children ================= *)
+Lemma in_combine_r_ex : forall {A B} (l2 : list B) (l1 : list A) c,
+  (length l2 <= length l1)%nat -> In c l2 -> exists b, In (b, c) (combine l1 l2).
+Proof.
+  intros A B l2. induction l2 as [|y l2 IH]; intros l1 c Hl Hin; [contradiction|].
+  destruct l1 as [|x l1]; cbn [length] in Hl; [lia|]. cbn [combine].
+  destruct Hin as [->|Hin].
+  - exists x. left. reflexivity.
+  - destruct (IH l1 c ltac:(lia) Hin) as [b Hb]. exists b. right. exact Hb.
+Qed.
+
+(* under nwf every child a node holds is registered under some key byte *)
+Lemma nwf_children_enum : forall {C} (m : rnode C), nwf m ->
+  match m with
+  | N4 _ _ _ ch | N16 _ _ _ ch => forall c, In c ch -> exists b, In (b, c) (nenum m)
+  | N48 _ _ _ slots | N256 _ _ slots => forall c, In (Some c) slots -> exists b, In (b, c) (nenum m)
+  end.
+Proof.
+  intros C m [_ Hw].
+  pose proof params_hold as P. unfold params_ok in P.
+  destruct P as (Pm4 & Pm16 & Pm48 & _).
+  destruct m as [h len keys ch|h len keys ch|h len idx slots|h len slots]; cbn [nenum]; intros c Hin.
+  - destruct Hw as (_ & Hl & Hm & _).
+    apply in_combine_r_ex; [|exact Hin]. rewrite firstn_length. change (length (lanes keys)) with 4%nat. lia.
+  - destruct Hw as (Hk & _ & Hl & _ & Hm & _).
+    apply in_combine_r_ex; [|exact Hin]. rewrite firstn_length. lia.
+  - destruct Hw as (Hi & Hsl & Hpt & Hinj & Hback & _).
+    apply In_nth_error in Hin. destruct Hin as [i Hi'].
+    destruct (Hback i c Hi') as (b & Hb & Hnb).
+    exists (N.of_nat b). apply assoc_in. rewrite assoc_enum_idx0.
+    rewrite Nat2N.id, Hnb. unfold NodeAux48.entry.
+    replace (N.of_nat i + 1 =? 0) with false by (symmetry; apply N.eqb_neq; lia).
+    replace (N.to_nat (N.of_nat i + 1 - 1)) with i by lia. rewrite Hi'. reflexivity.
+  - apply In_nth_error in Hin. destruct Hin as [i Hi'].
+    exists (N.of_nat i). apply assoc_in. rewrite assoc_enum_slots0.
+    rewrite Nat2N.id, Hi'. reflexivity.
+Qed.
+
+Lemma map_omap_ext_in : forall {C B} (f g : C -> B) (l : list (option C)),
+  (forall c, In (Some c) l -> f c = g c) -> map (omap f) l = map (omap g) l.
+Proof.
+  intros C B f g l H. apply map_ext_in. intros [c|] Hin; cbn [omap]; [|reflexivity].
+  f_equal. apply H. exact Hin.
+Qed.
+
+Lemma rmap_ext_enum : forall {C B} (m : rnode C) (f g : C -> B), nwf m ->
+  (forall b c, In (b, c) (nenum m) -> f c = g c) -> rmap f m = rmap g m.
+Proof.
+  intros C B m f g Hw H. pose proof (nwf_children_enum m Hw) as Hc.
+  destruct m as [h len keys ch|h len keys ch|h len idx slots|h len slots]; cbn [rmap]; f_equal;
+    first [apply map_omap_ext_in|apply map_ext_in]; intros c Hin; destruct (Hc c Hin) as [b Hb]; exact (H b c Hb).
+Qed.
+
+Lemma rmap_ext_kids : forall {C B} (n : xnode C) (f g : C -> B), xwf n ->
+  (forall b c, In (b, c) (nenum (xabs n)) -> f c = g c) -> rmap f (xabs n) = rmap g (xabs n).
+Proof. intros C B n f g (_ & _ & Hw) H. apply rmap_ext_enum; assumption. Qed.
+
+(* the height of an inner node is one more than a bound on the heights of the registered children *)
+Lemma theight_inner_le : forall (m : rnode tree) k, nwf m ->
+  (forall b c, In (b, c) (nenum m) -> (theight c <= k)%nat) -> (theight (Inner m) <= S k)%nat.
+Proof.
+  intros m k Hw H. pose proof (nwf_children_enum m Hw) as Hc.
+  destruct m as [h len keys ch|h len keys ch|h len idx slots|h len slots]; cbn [theight]; apply le_n_S;
+    apply list_max_le; apply Forall_forall; intros x Hx; apply in_map_iff in Hx; destruct Hx as (o & <- & Ho).
+  - destruct (Hc o Ho) as [b Hb]. exact (H b o Hb).
+  - destruct (Hc o Ho) as [b Hb]. exact (H b o Hb).
+  - destruct o as [c|]; [|lia]. destruct (Hc c Ho) as [b Hb]. exact (H b c Hb).
+  - destruct o as [c|]; [|lia]. destruct (Hc c Ho) as [b Hb]. exact (H b c Hb).
+Qed.
+
+(* ================= kids of a stored node, on the three readings ================= *)
+Lemma kids_nabs_strip : forall (n : xnode atree),
+  nenum (nabs (xmap strip n)) = map (fun bc => (fst bc, tabs (strip (snd bc)))) (kids n).
+Proof.
+  intros n. rewrite nenum_nabs, nenum_xabs_xmap, map_map. reflexivity.
+Qed.
+Lemma kid_in_nabs : forall (n : xnode atree) b c, In (b, c) (kids n) ->
+  In (b, tabs (strip c)) (nenum (nabs (xmap strip n))).
+Proof.
+  intros n b c H. rewrite kids_nabs_strip.
+  exact (in_map (fun bc : N * atree => (fst bc, tabs (strip (snd bc)))) _ _ H).
+Qed.
+Lemma kid_height : forall a (n : xnode atree) b c, In (b, c) (kids n) ->
+  (theight (tabs (strip c)) < theight (tabs (strip (AInner a n))))%nat.
+Proof.
+  intros a n b c H. cbn [strip]. rewrite tabs_inner. eapply in_nenum_height. apply kid_in_nabs. exact H.
+Qed.
+
+(* ================= R1, R2: the tree read back from the heap ================= *)
+Lemma reify_inner : forall f h a (n : xnode atree), load h a = Some (HNode (xmap aref n)) ->
+  reify (S f) h a = XInner (xmap (fun c => reify f h (aref c)) n).
+Proof. intros f h a n Hl. cbn [reify]. rewrite Hl, xmap_xmap. reflexivity. Qed.
+
+Lemma reify_tabs : forall F h c, stored h c -> (theight (tabs (strip c)) <= F)%nat ->
+  tabs (reify F h (aref c)) = tabs (strip c).
+Proof.
+  induction F as [|f IH]; intros h c Hs Hh.
+  - pose proof (theight_pos (tabs (strip c))). lia.
+  - destruct c as [a gk tk v|a n].
+    + inversion Hs; subst. cbn [aref reify strip tabs].
+      match goal with H : load h a = _ |- _ => rewrite H end. reflexivity.
+    + destruct (stored_inv _ _ _ Hs) as (Hl & Hx & Hk). cbn [aref].
+      rewrite (reify_inner f h a n Hl). cbn [strip tabs]. f_equal.
+      rewrite !xmap_xmap, !xabs_xmap. apply rmap_ext_kids; [exact Hx|].
+      intros b c Hin. apply IH; [exact (Hk b c Hin)|].
+      pose proof (kid_height a n b c Hin). lia.
+Qed.
+
+Lemma reify_xtwf : forall F h c, stored h c -> (theight (tabs (strip c)) <= F)%nat ->
+  xtwf (reify F h (aref c)).
+Proof.
+  induction F as [|f IH]; intros h c Hs Hh.
+  - pose proof (theight_pos (tabs (strip c))). lia.
+  - destruct c as [a gk tk v|a n].
+    + inversion Hs; subst. cbn [aref reify].
+      match goal with H : load h a = _ |- _ => rewrite H end. constructor.
+    + destruct (stored_inv _ _ _ Hs) as (Hl & Hx & Hk). cbn [aref].
+      rewrite (reify_inner f h a n Hl). constructor; [apply xwf_xmap; exact Hx|].
+      intros b c' Hin. rewrite nenum_xabs_xmap in Hin. apply in_map_iff in Hin.
+      destruct Hin as ([b0 c0] & E & Hin). cbn [fst snd] in E. injection E as <- <-.
+      apply IH; [exact (Hk b0 c0 Hin)|]. pose proof (kid_height a n b0 c0 Hin). lia.
+Qed.
+
+(* ================= R3: the height is bounded by the number of addresses ================= *)
+Lemma height_cover : forall k (L : list nat) h c, (length L <= k)%nat -> stored h c -> sep c ->
+  (forall x, live c x -> In x L) -> (theight (tabs (strip c)) <= length L)%nat.
+Proof.
+  induction k as [|k IH]; intros L h c HL Hs Hp Hc.
+  - destruct L; [|cbn [length] in HL; lia]. destruct (Hc _ (live_root c)).
+  - pose proof (Hc _ (live_root c)) as Hroot.
+    destruct c as [a gk tk v|a n].
+    + cbn [strip tabs theight]. destruct L; [destruct Hroot|cbn [length]; lia].
+    + cbn [aref] in Hroot. destruct (stored_inv _ _ _ Hs) as (Hl & Hx & Hk).
+      destruct (sep_inv _ _ Hp) as (Hsk & Hna & _).
+      pose proof (remove_length_lt Nat.eq_dec L a Hroot) as Hlt.
+      set (L' := remove Nat.eq_dec a L) in *.
+      assert (Hb : (theight (tabs (strip (AInner a n))) <= S (length L'))%nat).
+      { cbn [strip]. rewrite tabs_inner. apply theight_inner_le.
+        - apply nwf_nabs. apply xwf_xmap. exact Hx.
+        - intros b t Hin. rewrite kids_nabs_strip in Hin. apply in_map_iff in Hin.
+          destruct Hin as ([b0 c0] & E & Hin). cbn [fst snd] in E. injection E as <- <-.
+          apply (IH L' h c0); [lia|exact (Hk b0 c0 Hin)|exact (Hsk b0 c0 Hin)|].
+          intros x Hx0. apply in_in_remove.
+          + intros ->. exact (Hna b0 c0 Hin Hx0).
+          + apply Hc. eapply live_kid; eassumption. }
+      lia.
+Qed.
+
+Lemma height_bound : forall h c N, stored h c -> sep c -> (forall x, live c x -> (x < N)%nat) ->
+  (theight (tabs (strip c)) <= N)%nat.
+Proof.
+  intros h c N Hs Hp Hlt.
+  pose proof (height_cover N (seq 0 N) h c ltac:(rewrite seq_length; lia) Hs Hp) as H.
+  rewrite seq_length in H. apply H. intros x Hx. apply in_seq. specialize (Hlt x Hx). lia.
+Qed.
+
+(* ================= R5-R7: the read-only helpers on the heap ================= *)
+(* minimum() on a well-formed raw tree with enough budget returns the model's minimum leaf *)
+Lemma min_loop_leaf : forall f t d, xtwf t -> WF d (tabs t) -> (theight (tabs t) <= f)%nat ->
+  exists gk tk v, g_minimum_loop1 f (Some t) = LRet (Some (XLeaf gk tk v)) /\
+                  minimum (tabs t) = Some (Leaf gk tk v).
+Proof.
+  intros f t d Hxt Hwf Hf.
+  pose proof (gen_minimum_loop_eq f t d Hxt Hwf) as H.
+  rewrite (IterFacts.minleaf_spec f d _ Hf Hwf) in H.
+  unfold minimum. rewrite (IterFacts.minleaf_spec _ d _ (Nat.le_refl _) Hwf).
+  destruct (hd_error (leaves (tabs t))) as [[[gk tk] v]|] eqn:El.
+  2:{ exfalso. apply (WF_nonempty _ _ Hwf). destruct (leaves (tabs t)); [reflexivity|discriminate]. }
+  cbn [option_map] in *. change (to_leaf (gk, tk, v)) with (Leaf gk tk v) in *.
+  exists gk, tk, v. split; [|reflexivity].
+  destruct (g_minimum_loop1 f (Some t)) as [[x|]|s| |]; cbn [lres_map option_map] in H; try discriminate.
+  injection H as H. apply tabs_leaf_inv in H. subst x. reflexivity.
+Qed.
+
+(* the same for the tree read back from the heap below a stored annotated tree *)
+Lemma min_loop_reify : forall f h c d, stored h c -> WF d (tabs (strip c)) ->
+  (theight (tabs (strip c)) <= f)%nat ->
+  exists gk tk v, g_minimum_loop1 f (Some (reify f h (aref c))) = LRet (Some (XLeaf gk tk v)) /\
+                  minimum (tabs (strip c)) = Some (Leaf gk tk v).
+Proof.
+  intros f h c d Hs Hwf Hf.
+  pose proof (reify_tabs f h c Hs Hf) as Et. pose proof (reify_xtwf f h c Hs Hf) as Hxt.
+  rewrite <- Et. apply (min_loop_leaf f _ d); [exact Hxt|rewrite Et; exact Hwf|rewrite Et; exact Hf].
+Qed.
+
+Lemma h_minimum_spec : forall h c d, stored h c -> sep c -> (forall x, live c x -> (x < next h)%nat) ->
+  WF d (tabs (strip c)) ->
+  exists gk tk v, h_minimum h (Some (aref c)) = GRet (Some (XLeaf gk tk v)) /\
+                  minimum (tabs (strip c)) = Some (Leaf gk tk v).
+Proof.
+  intros h c d Hs Hp Hlt Hwf. pose proof (height_bound h c _ Hs Hp Hlt) as Hh.
+  destruct (min_loop_reify (next h) h c d Hs Hwf Hh) as (gk & tk & v & E & M).
+  exists gk, tk, v. split; [|exact M].
+  unfold h_minimum, h_reify, g_minimum. rewrite E. reflexivity.
+Qed.
+
+Lemma h_prefixMismatch_spec : forall h a n key d d0, stored h (AInner a n) -> sep (AInner a n) ->
+  (forall x, live (AInner a n) x -> (x < next h)%nat) -> WF d0 (tabs (strip (AInner a n))) ->
+  h_prefixMismatch h (Some a) key (Z.of_nat d) =
+  GRet (Z.of_nat (prefixMismatch (nabs (xmap strip n)) key d)).
+Proof.
+  intros h a n key d d0 Hs Hp Hlt Hwf. pose proof (height_bound h _ _ Hs Hp Hlt) as Hh.
+  pose proof (reify_tabs (next h) h _ Hs Hh) as Et. pose proof (reify_xtwf (next h) h _ Hs Hh) as Hxt.
+  destruct (stored_inv _ _ _ Hs) as (Hl & Hx & Hk).
+  unfold h_prefixMismatch, h_reify. cbn [aref] in Et, Hxt.
+  destruct (next h) as [|f] eqn:En.
+  { pose proof (theight_pos (tabs (strip (AInner a n)))). lia. }
+  rewrite (reify_inner f h a n Hl) in *.
+  cbn [strip] in Et, Hwf, Hh. rewrite !tabs_inner in Et. rewrite tabs_inner in Hwf, Hh.
+  injection Et as Et.
+  rewrite (gen_prefixMismatch_eq (S f) _ key d d0 Hxt); rewrite Et; [reflexivity|exact Hwf|exact Hh].
+Qed.
+
+Lemma s_prefixLen_set_hdr : forall {C} v (n : xnode C),
+  s_prefixLen v n = xset_hdr n (N.to_nat v) (xprefix (xh n)).
+Proof. intros C v [h k ch|h k ch|h k ch|h ch]; reflexivity. Qed.
+
+Lemma h_minimum_set_prefixLen : forall h a n v d, stored h (AInner a n) -> sep (AInner a n) ->
+  (forall x, live (AInner a n) x -> (x < next h)%nat) -> WF d (tabs (strip (AInner a n))) ->
+  h_minimum (h_set_prefixLen h a v) (Some a) = h_minimum h (Some a).
+Proof.
+  intros h a n v d Hs Hp Hlt Hwf.
+  destruct (stored_inv _ _ _ Hs) as (Hl & Hx & Hk).
+  destruct (sep_inv _ _ Hp) as (Hsk & Hna & _).
+  pose proof (height_bound h _ _ Hs Hp Hlt) as Hh.
+  unfold h_set_prefixLen. rewrite Hl.
+  set (h' := store h a (HNode (s_prefixLen v (xmap aref n)))).
+  unfold h_minimum, h_reify. change (next h') with (next h).
+  destruct (next h) as [|f] eqn:En.
+  { pose proof (theight_pos (tabs (strip (AInner a n)))). lia. }
+  set (PL := N.to_nat v). set (PX := xprefix (xh n)).
+  assert (Hl' : load h' a = Some (HNode (xmap aref (xset_hdr n PL PX)))).
+  { subst h'. rewrite load_store_same, s_prefixLen_set_hdr, xset_hdr_xmap, xh_xmap. reflexivity. }
+  rewrite (reify_inner f h a n Hl), (reify_inner f h' a _ Hl'). rewrite <- xset_hdr_xmap.
+  set (g1 := fun c => reify f h (aref c)). set (g2 := fun c => reify f h' (aref c)).
+  (* the first registered child *)
+  cbn [strip] in Hwf, Hh. rewrite tabs_inner in Hwf, Hh.
+  pose proof (WF_nenum_ne _ _ Hwf) as Hne. rewrite nenum_xabs_xmap in Hne.
+  destruct (nenum (xabs n)) as [|[b0 c0] tl] eqn:Ek; [exfalso; apply Hne; reflexivity|]. clear Hne.
+  assert (Hin : In (b0, c0) (kids n)) by (unfold kids; rewrite Ek; left; reflexivity).
+  destruct (WF_child _ _ _ _ Hwf (kid_in_nabs n b0 c0 Hin)) as [Hwc _].
+  pose proof (in_nenum_height _ _ _ (kid_in_nabs n b0 c0 Hin)) as Hhc.
+  assert (Hf0 : (theight (tabs (strip c0)) <= f)%nat) by lia.
+  pose proof (Hk b0 c0 Hin) as Hs0.
+  assert (Hs0' : stored h' c0).
+  { apply (stored_frame h h' c0 Hs0). intros x Hx0. subst h'. apply load_store_other.
+    intros ->. exact (Hna b0 c0 Hin Hx0). }
+  destruct (min_loop_reify f h c0 _ Hs0 Hwc Hf0) as (gk & tk & v1 & E1 & M1).
+  destruct (min_loop_reify f h' c0 _ Hs0' Hwc Hf0) as (gk' & tk' & v1' & E2 & M2).
+  rewrite M1 in M2. injection M2 as <- <- <-.
+  (* one step at the root on both sides *)
+  assert (X1 : xwf (xmap g1 n)) by (apply xwf_xmap; exact Hx).
+  assert (X2' : xwf (xmap g2 n)) by (apply xwf_xmap; exact Hx).
+  assert (HPX : length PX = maxPrefixLen) by (apply xwf_prefix_len; exact Hx).
+  destruct (xset_hdr_xwf (xmap g2 n) PL PX X2' HPX) as (X2 & N2).
+  unfold g_minimum.
+  destruct (min_step (xmap g1 n) f X1) as (b1 & c1 & _ & F1 & St1).
+  { rewrite nenum_xabs_xmap, Ek. discriminate. }
+  destruct (min_step (xset_hdr (xmap g2 n) PL PX) f X2) as (b2 & c2 & _ & F2 & St2).
+  { rewrite N2, nenum_xabs_xmap, Ek. discriminate. }
+  rewrite nfirst_spec in F1 by apply X1. rewrite nenum_xabs_xmap, Ek in F1.
+  cbn [map hd_error fst snd] in F1. injection F1 as <-.
+  rewrite nfirst_spec in F2 by apply X2. rewrite N2, nenum_xabs_xmap, Ek in F2.
+  cbn [map hd_error fst snd] in F2. injection F2 as <-.
+  rewrite St1, St2. unfold g1, g2. rewrite E1, E2. reflexivity.
+Qed.
+
+(* ================= D. Insert: allocation, header writes, addChild on a stored node ================= *)
+(* nothing is allocated at or above next *)
+Definition hwf (h : heap) : Prop := forall x, (next h <= x)%nat -> load h x = None.
+Lemma hwf_lt : forall h x, hwf h -> load h x <> None -> (x < next h)%nat.
+Proof. intros h x Hw Hl. destruct (Nat.lt_ge_cases x (next h)) as [L|L]; [exact L|]. contradiction Hl. apply Hw. exact L. Qed.
+Lemma hwf_store : forall h a o, hwf h -> (a < next h)%nat -> hwf (store h a o).
+Proof. intros h a o Hw Ha x Hx. rewrite next_store in Hx. rewrite load_store_other by lia. apply Hw. exact Hx. Qed.
+Lemma alloc_spec : forall h o, let r := alloc h o in
+  fst r = next h /\ load (snd r) (next h) = Some o /\ (forall x, x <> next h -> load (snd r) x = load h x) /\
+  next (snd r) = S (next h).
+Proof.
+  intros h o r. subst r. unfold alloc, load. cbn [fst snd cells next]. split; [reflexivity|].
+  split; [rewrite Nat.eqb_refl; reflexivity|]. split; [|reflexivity].
+  intros x Hx. destruct (Nat.eqb_spec x (next h)); [contradiction|reflexivity].
+Qed.
+Lemma hwf_alloc : forall h o, hwf h -> hwf (snd (alloc h o)).
+Proof.
+  intros h o Hw x Hx. destruct (alloc_spec h o) as (_ & _ & Hf & Hn). rewrite Hn in Hx.
+  rewrite Hf by lia. apply Hw. lia.
+Qed.
+Lemma live_loaded : forall h c x, stored h c -> live c x -> load h x <> None.
+Proof.
+  intros h c x H. revert x. induction H as [a gk tk v Hl|a n Hl Hx Hk IH]; intros x Hlx.
+  - apply live_leaf in Hlx. subst x. rewrite Hl. discriminate.
+  - destruct (live_inv _ _ Hlx) as [->|(a1 & n1 & b & c & E & Hin & Hlc)]; [cbn [aref]; rewrite Hl; discriminate|].
+    injection E as <- <-. apply (IH b c Hin x Hlc).
+Qed.
+Lemma live_lt : forall h c x, hwf h -> stored h c -> live c x -> (x < next h)%nat.
+Proof. intros h c x Hw Hs Hl. apply hwf_lt; [exact Hw|eapply live_loaded; eauto]. Qed.
+
+(* two heaps that agree outside a list of addresses *)
+Definition heq_except (l : list addr) (h h' : heap) : Prop := forall x, ~ In x l -> load h' x = load h x.
+Lemma heq_refl : forall l h, heq_except l h h.
+Proof. intros l h x _. reflexivity. Qed.
+Lemma heq_trans : forall l h1 h2 h3, heq_except l h1 h2 -> heq_except l h2 h3 -> heq_except l h1 h3.
+Proof. intros l h1 h2 h3 H12 H23 x Hx. rewrite (H23 x Hx). apply H12. exact Hx. Qed.
+Lemma heq_store : forall l h a o, In a l -> heq_except l h (store h a o).
+Proof. intros l h a o Ha x Hx. apply load_store_other. intros ->. contradiction. Qed.
+Lemma heq_alloc : forall l h o, In (next h) l -> heq_except l h (snd (alloc h o)).
+Proof. intros l h o Ha x Hx. apply (proj1 (proj2 (proj2 (alloc_spec h o)))). intros ->. contradiction. Qed.
+
+(* the node at a is the image of the annotated node N *)
+Definition nodeat (h : heap) (a : addr) (N : xnode atree) : Prop := load h a = Some (HNode (xmap aref N)).
+Lemma s_prefixLen_xmap : forall {A B} (f : A -> B) v n, s_prefixLen v (xmap f n) = xmap f (s_prefixLen v n).
+Proof. intros. unfold s_prefixLen. rewrite xh_xmap. apply s_node_xmap. Qed.
+Lemma s_prefix_xmap : forall {A B} (f : A -> B) v n, s_prefix v (xmap f n) = xmap f (s_prefix v n).
+Proof. intros. unfold s_prefix. rewrite xh_xmap. apply s_node_xmap. Qed.
+Lemma set_prefixLen_at : forall h a N v, nodeat h a N ->
+  h_set_prefixLen h a v = store h a (HNode (xmap aref (s_prefixLen v N))).
+Proof. intros h a N v H. unfold h_set_prefixLen. rewrite H, s_prefixLen_xmap. reflexivity. Qed.
+Lemma set_prefix_at : forall h a N v, nodeat h a N ->
+  h_set_prefix h a v = store h a (HNode (xmap aref (s_prefix v N))).
+Proof. intros h a N v H. unfold h_set_prefix. rewrite H, s_prefix_xmap. reflexivity. Qed.
+Lemma h_hdr_at : forall h a N, nodeat h a N -> h_hdr h a = xh N.
+Proof. intros h a N H. unfold h_hdr. rewrite H. apply xh_xmap. Qed.
+Lemma nodeat_store : forall h a N, nodeat (store h a (HNode (xmap aref N))) a N.
+Proof. intros. apply load_store_same. Qed.
+
+(* the pool of the model as the heap sees it, through the annotated pool *)
+Lemma pool_aref : forall pm, zero_pool pm -> map_pool pm = map (xmap aref) (apool pm).
+Proof.
+  intros pm Hp. unfold map_pool, apool. rewrite map_map.
+  rewrite (map_ext (fun x => xmap aref (xmap _ x)) (xmap (fun c => aref ((fun _ : xtree => adummy) c)))) by (intros; apply xmap_xmap).
+  apply zero_map_irrel. exact Hp.
+Qed.
+Lemma pool_aref_back : forall (q : @pool atree), zero_pool q -> map (xmap aref) q = map_pool (map (xmap strip) q).
+Proof.
+  intros q Hq. unfold map_pool. rewrite map_map.
+  rewrite (map_ext (fun x => xmap _ (xmap strip x)) (xmap (fun c => (fun _ : xtree => O) (strip c)))) by (intros; apply xmap_xmap).
+  apply zero_map_irrel. exact Hq.
+Qed.
+
+(* addChild on the annotated node: the three readings agree (naturality), the result is xwf with one more kid *)
+Lemma xadd_three : forall (N : xnode atree) b c os pm, xwf N -> zero_pool pm -> b < 256 -> assoc b (kids N) = None ->
+  let r := xadd N b c os (apool pm) in
+  xadd (xmap aref N) b (aref c) os (map_pool pm) = (xmap aref (fst r), map_pool (snd (xadd (xmap strip N) b (strip c) os pm))) /\
+  fst (xadd (xmap strip N) b (strip c) os pm) = xmap strip (fst r) /\
+  zero_pool (snd (xadd (xmap strip N) b (strip c) os pm)) /\
+  xwf (fst r) /\ kids (fst r) = ins_sorted b c (kids N).
+Proof.
+  intros N b c os pm Hx Hp Hb Ha r. subst r.
+  pose proof (xadd_xmap aref N b c os (apool pm)) as NA. pose proof (xadd_xmap strip N b c os (apool pm)) as NS.
+  rewrite (apool_strip _ Hp) in NS. rewrite <- (pool_aref _ Hp) in NA.
+  pose proof (xadd_pool_zero N b c os (apool pm) (apool_zero _ Hp)) as Hz.
+  destruct (xadd_sim N b c os (apool pm) Hx (apool_zero _ Hp) Hb Ha) as (Eabs & Hx').
+  destruct (nadd_spec (xabs N) b c (proj2 (proj2 Hx)) Hb Ha) as (_ & En & _).
+  rewrite NA, NS. cbn [fst snd]. rewrite (pool_aref_back _ Hz).
+  split; [reflexivity|]. split; [reflexivity|]. split; [apply zero_pool_map; exact Hz|]. split; [exact Hx'|].
+  unfold kids. rewrite Eabs. exact En.
+Qed.
+
+(* ref.addChild(b, child) with *ref the node at a *)
+Lemma addChild_step : forall h root ref a N b c os pm,
+  slot_read h root ref = Some (Some a) -> nodeat h a N -> xwf N -> zero_pool pm -> b < 256 -> assoc b (kids N) = None ->
+  h_addChild h root ref b (Some (aref c)) os (map_pool pm) =
+    Some (store h a (HNode (xmap aref (fst (xadd N b c os (apool pm))))), skipn (xadd_gets (xmap strip N)) os,
+          map_pool (snd (xadd (xmap strip N) b (strip c) os pm))).
+Proof.
+  intros h root ref a N b c os pm Hrd Hat Hx Hp Hb Ha.
+  destruct (xadd_three N b c os pm Hx Hp Hb Ha) as (E1 & _).
+  unfold h_addChild. rewrite Hrd, Hat.
+  rewrite gen_addChild_eq.
+  - rewrite E1. rewrite xadd_gets_xmap, <- (xadd_gets_xmap strip N). reflexivity.
+  - rewrite shape_ok_xmap. apply Hx.
+  - apply zero_pool_shapes. unfold map_pool. apply zero_pool_map. exact Hp.
+  - pose proof (add_hyps_from_xwf N Hx) as Hh. destruct N; exact Hh.
+Qed.
+
+(* n4.addChild(ref, b, child) with n4 the node4 at a and *ref = n4 *)
+Lemma node4_addChild_step : forall h root ref a N b c os pm,
+  slot_read h root ref = Some (Some a) -> nodeat h a N -> xkind N = K4 -> xwf N -> zero_pool pm -> b < 256 ->
+  assoc b (kids N) = None ->
+  h_node4_addChild h root a ref b (Some (aref c)) os (map_pool pm) =
+    Some (store h a (HNode (xmap aref (fst (xadd N b c os (apool pm))))), skipn (xadd_gets (xmap strip N)) os,
+          map_pool (snd (xadd (xmap strip N) b (strip c) os pm))).
+Proof.
+  intros h root ref a N b c os pm Hrd Hat Hk Hx Hp Hb Ha.
+  destruct (xadd_three N b c os pm Hx Hp Hb Ha) as (E1 & _).
+  unfold h_node4_addChild. rewrite Hrd, Nat.eqb_refl, Hat, xkind_xmap, Hk.
+  destruct N as [hd keys ch|hd keys ch|hd keys ch|hd ch]; try discriminate Hk. cbn [xmap] in *.
+  rewrite gen_node4_addChild_eq.
+  - cbn [xadd] in E1. rewrite E1. reflexivity.
+  - change (shape_ok (xmap aref (X4 hd keys ch)) = true). rewrite shape_ok_xmap. apply Hx.
+  - apply zero_pool_shapes. unfold map_pool. apply zero_pool_map. exact Hp.
+  - destruct (xwf4_inv _ _ _ Hx) as (_ & _ & Hl & _). change maxNode4 with 4. lia.
+Qed.
+
+(* a node4 with room stays a node4 *)
+Lemma xadd4_kind : forall {C} (N : xnode C) b c os p, xkind N = K4 -> xlen (xh N) < maxNode4 ->
+  xkind (fst (xadd N b c os p)) = K4 /\ xlen (xh (fst (xadd N b c os p))) = u8 (xlen (xh N) + 1).
+Proof.
+  intros C [hd keys ch|hd keys ch|hd keys ch|hd ch] b c os p Hk Hl; try discriminate Hk.
+  cbn [xadd xh] in *. unfold xadd4. replace (xlen hd <? maxNode4) with true by lia.
+  destruct (_ =? -1)%Z; cbn [fst xkind xh xlen w_len]; auto.
+Qed.
+
+(* the outcome of the loop of Insert on the subtree cur held in *ref against the model's xinsert *)
+Definition ins_ok (size : Z) (os : list choice) (pm : xpool) (h : heap) (root : href) (ref : slot) (cur : atree)
+                  (r : mres unit) (m : xires * list choice * xpool) : Prop :=
+  match r with
+  | MDone h' root' size' os' p' _ =>
+    match fst (fst m) with
+    | XIDone t' added => size' = (if added then size + 1 else size)%Z /\ os' = snd (fst m) /\ p' = map_pool (snd m) /\
+        zero_pool (snd m) /\ hwf h' /\
+        exists cur', strip cur' = t' /\ stored h' cur' /\ sep cur' /\
+                     (forall x, live cur' x -> live cur x \/ (next h <= x)%nat) /\
+                     framed h root h' root' ref cur (Some (aref cur'))
+    | _ => False
+    end
+  | MPanic => fst (fst m) = XIPanic
+  | MFuel => fst (fst m) = XIFuel
+  end.
+
+Lemma ins_up : forall size os pm h root ref a n b c i R M,
+  hwf h -> stored h (AInner a n) -> sep (AInner a n) -> slot_read h root ref = Some (Some a) -> slot_out ref (AInner a n) ->
+  b < 256 -> In (b, c) (kids n) -> nth_error (xch n) i = Some (Some c) ->
+  (forall c', xreplace n b c' = s_children (set_at i (Some c') (xch n)) n) ->
+  ins_ok size os pm h root (SCell a i) c R M ->
+  ins_ok size os pm h root ref (AInner a n) R
+    (match fst (fst M) with XIDone c' added => (XIDone (XInner (xreplace (xmap strip n) b c')) added, snd (fst M), snd M) | _ => M end).
+Proof.
+  intros size os pm h root ref a n b c i R M Hw Hst Hsep Hrd Hout Hb Hin Hnth Hrep Hok.
+  destruct (stored_inv _ _ _ Hst) as (Hl & Hx & Hk). destruct (sep_inv _ _ Hsep) as (S1 & S2 & S3).
+  destruct R as [h' root' size' os' p' ret| |]; destruct M as [[res osm] pmm]; cbn [ins_ok fst snd] in *;
+    destruct res as [t' added| |]; cbn [fst snd]; try exact Hok; try discriminate Hok.
+  destruct Hok as (-> & -> & -> & Hzp & Hw' & cur' & <- & Hst' & Hsep' & Hsub & Hfr).
+  split; [reflexivity|]. split; [reflexivity|]. split; [reflexivity|]. split; [exact Hzp|]. split; [exact Hw'|].
+  destruct Hfr as (Hnx & -> & Hframe & nd & Hla & Hlt & Hla').
+  rewrite Hl in Hla. injection Hla as <-.
+  assert (Ha : assoc b (nenum (xabs n)) <> None) by (pose proof (kid_assoc n b c Hx Hin) as E; unfold kids in E; rewrite E; discriminate).
+  destruct (xreplace_xwf n b cur' Hx Hb Ha) as (Hxr & Ekr & _).
+  assert (Hkr : forall b1 c1, In (b1, c1) (kids (xreplace n b cur')) ->
+                  (b1 = b /\ c1 = cur') \/ (b1 <> b /\ In (b1, c1) (kids n))).
+  { intros b1 c1 H1. pose proof (kid_assoc _ _ _ Hxr H1) as A1. unfold kids in A1. rewrite Ekr in A1.
+    destruct (N.eq_dec b1 b) as [->|Hne].
+    - rewrite assoc_repl_key_same in A1 by exact Ha. injection A1 as <-. left. auto.
+    - rewrite assoc_repl_key_other in A1 by exact Hne. right. split; [exact Hne|]. apply assoc_in. exact A1. }
+  assert (Hlc : forall x, live c x -> live (AInner a n) x) by (intros x Hx0; eapply live_kid; eauto).
+  assert (Hlt_old : forall x, live (AInner a n) x -> (x < next h)%nat) by (intros x Hx0; eapply live_lt; eauto).
+  assert (Hframe' : forall x, (x < next h \/ next h' <= x)%nat -> ~ live c x -> x <> a -> load h' x = load h x).
+  { intros x H0 H1 H2. apply Hframe; assumption. }
+  exists (AInner a (xreplace n b cur')). split; [cbn [strip]; rewrite xreplace_xmap; reflexivity|].
+  split; [|split; [|split]].
+  - constructor.
+    + rewrite Hla'. rewrite xch_xmap. change (Some (aref cur')) with (omap aref (Some cur')).
+      unfold href. rewrite <- (map_set_at (omap aref) i (Some cur') (xch n)), s_children_xmap, <- Hrep. reflexivity.
+    + exact Hxr.
+    + intros b1 c1 H1. destruct (Hkr _ _ H1) as [(-> & ->)|(Hne & Hin1)]; [exact Hst'|].
+      apply (stored_frame h); [apply (Hk _ _ Hin1)|]. intros x Hlx. apply Hframe'.
+      * left. apply Hlt_old. eapply live_kid; eauto.
+      * intros Hcx. exact (S3 b1 c1 b c x Hin1 Hin Hne Hlx Hcx).
+      * intros ->. exact (S2 _ _ Hin1 Hlx).
+  - assert (Hnew : forall x, live cur' x -> live c x \/ (next h <= x)%nat) by exact Hsub.
+    constructor.
+    + intros b1 c1 H1. destruct (Hkr _ _ H1) as [(-> & ->)|(Hne & Hin1)]; [exact Hsep'|apply (S1 _ _ Hin1)].
+    + intros b1 c1 H1 Hla1. destruct (Hkr _ _ H1) as [(-> & ->)|(Hne & Hin1)].
+      * destruct (Hnew _ Hla1) as [L|L]; [exact (S2 _ _ Hin L)|].
+        pose proof (Hlt_old a (live_root (AInner a n))). lia.
+      * exact (S2 _ _ Hin1 Hla1).
+    + intros b1 c1 b2 c2 x H1 H2 Hne L1 L2.
+      destruct (Hkr _ _ H1) as [(-> & ->)|(Hne1 & Hin1)]; destruct (Hkr _ _ H2) as [(-> & ->)|(Hne2 & Hin2)].
+      * contradiction.
+      * destruct (Hnew _ L1) as [L|L]; [exact (S3 b c b2 c2 x Hin Hin2 Hne L L2)|].
+        pose proof (Hlt_old x (live_kid _ _ _ _ _ Hin2 L2)). lia.
+      * destruct (Hnew _ L2) as [L|L]; [exact (S3 b1 c1 b c x Hin1 Hin Hne L1 L)|].
+        pose proof (Hlt_old x (live_kid _ _ _ _ _ Hin1 L1)). lia.
+      * exact (S3 b1 c1 b2 c2 x Hin1 Hin2 Hne L1 L2).
+  - intros x Hlx. destruct (live_inv _ _ Hlx) as [->|(a1 & n1 & b1 & c1 & E & H1 & L1)]; [left; apply (live_root (AInner a n))|].
+    injection E as <- <-. destruct (Hkr _ _ H1) as [(-> & ->)|(Hne & Hin1)].
+    + destruct (Hsub _ L1) as [L|L]; [left; apply Hlc; exact L|right; exact L].
+    + left. eapply live_kid; eauto.
+  - cbn [aref]. split; [exact Hnx|].
+    assert (Hroot : forall x, (x < next h \/ next h' <= x)%nat -> ~ live (AInner a n) x -> load h' x = load h x).
+    { intros x H0 Hx0. apply Hframe'; [exact H0|intros Hc; apply Hx0; apply Hlc; exact Hc|].
+      intros ->. apply Hx0. apply (live_root (AInner a n)). }
+    destruct ref as [| |a0 i0]; cbn [slot_out] in Hout; [contradiction| |].
+    + cbn [slot_read] in Hrd. injection Hrd as ->. split; [reflexivity|]. exact Hroot.
+    + destruct (slot_read_inv _ _ _ _ _ Hrd) as (nd0 & Hl0 & Hn0 & Hlt0).
+      split; [reflexivity|]. split; [intros x H0 Hx0 _; apply Hroot; assumption|].
+      exists nd0. split; [exact Hl0|]. split; [exact Hlt0|].
+      unfold href. replace (set_at i0 (Some a) (xch nd0)) with (xch nd0) by (symmetry; apply set_at_same; exact Hn0).
+      rewrite s_children_id, (Hroot a0); [exact Hl0| |exact Hout].
+      left. apply hwf_lt; [exact Hw|rewrite Hl0; discriminate].
+Qed.
+
+(* ---- small facts about the vocabulary ---- *)
+Lemma u32_of_nat : forall k, (N.of_nat k < M32) -> u32_of_int (Z.of_nat k) = N.of_nat k.
+Proof. intros k H. unfold u32_of_int. unfold M32 in H. rewrite Z.mod_small by lia. lia. Qed.
+Lemma mk_leaf_full : forall gk tk v, N.of_nat (length gk) < M32 -> N.of_nat (length tk) < M32 ->
+  h_mk_leaf gk (u32_of_int (Z.of_nat (length gk))) tk (u32_of_int (Z.of_nat (length tk))) v = HLeaf gk tk v.
+Proof.
+  intros gk tk v Hg Ht. unfold h_mk_leaf. rewrite !u32_of_nat by assumption. rewrite !Nat2N.id, !firstn_all. reflexivity.
+Qed.
+Lemma slice_from_nat : forall l d, (d <= length l)%nat -> slice_from l (Z.of_nat d) = Some (skipn d l).
+Proof.
+  intros l d H. unfold slice_from. replace (Z.of_nat d <? 0)%Z with false by lia.
+  replace (Z.of_nat (length l) <? Z.of_nat d)%Z with false by lia. cbn [orb]. rewrite Nat2Z.id. reflexivity.
+Qed.
+Lemma get_zero4 : forall os pm, zero_pool pm ->
+  Pool.get (Pool.nxt os) K4 (map_pool pm) = (xzero K4, map_pool (snd (Pool.get (Pool.nxt os) K4 pm))) /\
+  fst (Pool.get (Pool.nxt os) K4 pm) = xzero K4 /\ zero_pool (snd (Pool.get (Pool.nxt os) K4 pm)).
+Proof.
+  intros os pm Hp. unfold map_pool. rewrite get_xmap, (get_oracle_irrelevant _ _ _ Hp), xzero_xmap.
+  split; [reflexivity|]. split; [reflexivity|apply get_pool_zero; exact Hp].
+Qed.
+
+(* *ref = v on a heap that still has the cell of ref as it was *)
+Lemma slot_write_gen : forall h h1 root ref r0 r',
+  slot_read h root ref = Some r0 -> match ref with SCell a0 _ => load h1 a0 = load h a0 | _ => True end ->
+  exists h' root', slot_write h1 root ref r' = Some (h', root') /\
+    match ref with
+    | SNil => False
+    | SRoot => h' = h1 /\ root' = r'
+    | SCell a0 i0 => root' = root /\ exists nd, load h a0 = Some (HNode nd) /\ (i0 < length (xch nd))%nat /\
+                       h' = store h1 a0 (HNode (s_children (set_at i0 r' (xch nd)) nd))
+    end.
+Proof.
+  intros h h1 root ref r0 r' Hrd Hsame. destruct ref as [| |a0 i0]; [discriminate Hrd| |].
+  - exists h1, r'. auto.
+  - destruct (slot_read_inv _ _ _ _ _ Hrd) as (nd & Hl & _ & Hlt).
+    cbn [slot_write]. rewrite Hsame, Hl. replace (i0 <? length (xch nd))%nat with true by (symmetry; apply Nat.ltb_lt; exact Hlt).
+    eexists _, _. split; [reflexivity|]. split; [reflexivity|]. exists nd. auto.
+Qed.
+
+(* the new node4 of a split: zero, then its two header fields *)
+Lemma new4_node : forall pl src os pm, zero_pool pm ->
+  fst (xnew4 pl src os (apool pm)) = X4 (w_prefix (gcopy 0 src (xprefix xhdr0)) (w_plen pl xhdr0)) 0 (repeat None 4) /\
+  fst (xnew4 pl src os pm) = xmap strip (fst (xnew4 pl src os (apool pm))) /\
+  snd (xnew4 pl src os pm) = snd (Pool.get (Pool.nxt os) K4 pm) /\
+  xwf (fst (xnew4 pl src os (apool pm))) /\ kids (fst (xnew4 pl src os (apool pm))) = [].
+Proof.
+  intros pl src os pm Hp.
+  pose proof (xnew4_xmap strip pl src os (apool pm)) as NS. rewrite (apool_strip _ Hp) in NS.
+  destruct (xnew4_sim pl src os (apool pm) (apool_zero _ Hp)) as (Eabs & Hx).
+  split; [|split; [rewrite NS; reflexivity|split; [reflexivity|split; [exact Hx|]]]].
+  - unfold xnew4. rewrite (get_oracle_irrelevant _ _ _ (apool_zero _ Hp)). reflexivity.
+  - unfold kids. rewrite Eabs. reflexivity.
+Qed.
+
+(* a new inner node at a fresh address whose kids are stored, separated and away from it *)
+Lemma assemble_new : forall hf a' N (Old : addr -> Prop) lim,
+  nodeat hf a' N -> xwf N -> (lim <= a')%nat ->
+  (forall b c, In (b, c) (kids N) -> stored hf c /\ sep c /\ ~ live c a' /\ (forall x, live c x -> Old x \/ (lim <= x)%nat)) ->
+  (forall b1 c1 b2 c2 x, In (b1, c1) (kids N) -> In (b2, c2) (kids N) -> b1 <> b2 -> live c1 x -> live c2 x -> False) ->
+  stored hf (AInner a' N) /\ sep (AInner a' N) /\ (forall x, live (AInner a' N) x -> Old x \/ (lim <= x)%nat).
+Proof.
+  intros hf a' N Old lim Hat Hx Hlim Hk Hdis. split; [|split].
+  - constructor; [exact Hat|exact Hx|]. intros b c Hin. apply (Hk b c Hin).
+  - constructor; [intros b c Hin; apply (Hk b c Hin)|intros b c Hin; apply (Hk b c Hin)|exact Hdis].
+  - intros x Hl. destruct (live_inv _ _ Hl) as [->|(a1 & n1 & b & c & E & Hin & Hlc)]; [right; exact Hlim|].
+    injection E as <- <-. apply (proj2 (proj2 (proj2 (Hk b c Hin)))). exact Hlc.
+Qed.
+
+(* ---- the state while a split fills its new node4 at a' (held in *ref) ---- *)
+Definition ref_away (ref : slot) (a' : addr) : Prop := match ref with SCell a0 _ => a0 <> a' | _ => True end.
+Record split_st (ref : slot) (a' : addr) (hk : heap) (rootk : href) (Nk : xnode atree) (pmk : xpool) : Prop := {
+  ss_w : hwf hk;
+  ss_lt : (a' < next hk)%nat;
+  ss_rd : slot_read hk rootk ref = Some (Some a');
+  ss_at : nodeat hk a' Nk;
+  ss_k4 : xkind Nk = K4;
+  ss_x : xwf Nk;
+  ss_p : zero_pool pmk }.
+
+Lemma slot_read_store_other : forall h root ref a o, ref_away ref a -> slot_read (store h a o) root ref = slot_read h root ref.
+Proof.
+  intros h root ref a o Haw. destruct ref as [| |a0 i0]; try reflexivity. cbn [slot_read ref_away] in *.
+  rewrite load_store_other by exact Haw. reflexivity.
+Qed.
+
+(* newNode.addChild(ref, b, c) in that state *)
+Lemma split_add : forall ref a' hk rootk Nk pmk osk b c,
+  split_st ref a' hk rootk Nk pmk -> ref_away ref a' -> xlen (xh Nk) < maxNode4 -> b < 256 -> assoc b (kids Nk) = None ->
+  let Nk' := fst (xadd Nk b c osk (apool pmk)) in
+  let pmk' := snd (xadd (xmap strip Nk) b (strip c) osk pmk) in
+  let hk' := store hk a' (HNode (xmap aref Nk')) in
+  h_node4_addChild hk rootk a' ref b (Some (aref c)) osk (map_pool pmk) =
+    Some (hk', skipn (xadd_gets (xmap strip Nk)) osk, map_pool pmk') /\
+  split_st ref a' hk' rootk Nk' pmk' /\
+  fst (xadd (xmap strip Nk) b (strip c) osk pmk) = xmap strip Nk' /\
+  kids Nk' = ins_sorted b c (kids Nk) /\ xlen (xh Nk') = u8 (xlen (xh Nk) + 1).
+Proof.
+  intros ref a' hk rootk Nk pmk osk b c [Hw Hlt Hrd Hat Hk4 Hx Hp] Haw Hlen Hb Ha Nk' pmk' hk'. subst Nk' pmk' hk'.
+  destruct (xadd_three Nk b c osk pmk Hx Hp Hb Ha) as (_ & E2 & Hz & Hx' & Ek).
+  destruct (xadd4_kind Nk b c osk (apool pmk) Hk4 Hlen) as (Hk4' & Hl').
+  split; [apply node4_addChild_step; assumption|]. split; [|split; [exact E2|split; [exact Ek|exact Hl']]].
+  constructor; try assumption.
+  - apply hwf_store; assumption.
+  - rewrite slot_read_store_other by exact Haw. exact Hrd.
+  - apply nodeat_store.
+Qed.
+
+(* createLeaf() in that state *)
+Lemma split_alloc : forall ref a' hk rootk Nk pmk o,
+  split_st ref a' hk rootk Nk pmk ->
+  split_st ref a' (snd (alloc hk o)) rootk Nk pmk /\ load (snd (alloc hk o)) (next hk) = Some o /\
+  (forall x, x <> next hk -> load (snd (alloc hk o)) x = load hk x) /\ next (snd (alloc hk o)) = S (next hk).
+Proof.
+  intros ref a' hk rootk Nk pmk o [Hw Hlt Hrd Hat Hk4 Hx Hp].
+  destruct (alloc_spec hk o) as (_ & Hl & Hf & Hn). split; [|auto].
+  constructor; try assumption.
+  - apply hwf_alloc. exact Hw.
+  - rewrite Hn. lia.
+  - destruct ref as [| |a0 i0]; try exact Hrd. cbn [slot_read] in *.
+    destruct (load hk a0) as [o0|] eqn:E0; [|discriminate Hrd].
+    rewrite Hf by (intros ->; rewrite (Hw (next hk)) in E0 by lia; discriminate). rewrite E0. exact Hrd.
+  - unfold nodeat. rewrite Hf by lia. exact Hat.
+Qed.
+
+(* the cell *ref after the split linked the new node a' in it, in the final heap *)
+Definition cell_set (h : heap) (root : href) (ref : slot) (a' : addr) (rootf : href) (hf : heap) : Prop :=
+  match ref with
+  | SNil => False
+  | SRoot => rootf = Some a'
+  | SCell a0 i0 => rootf = root /\ exists nd, load h a0 = Some (HNode nd) /\ (i0 < length (xch nd))%nat /\
+                     load hf a0 = Some (HNode (s_children (set_at i0 (Some a') (xch nd)) nd))
+  end.
+Definition ref_addr_ne (ref : slot) (x : addr) : Prop := match ref with SCell a0 _ => x <> a0 | _ => True end.
+
+Lemma split_done : forall size os pm h root ref cur hf rootf N2 os2 pm2 (added : bool),
+  hwf h -> slot_out ref cur ->
+  cell_set h root ref (next h) rootf hf ->
+  (forall x, (x < next h)%nat -> ~ live cur x -> ref_addr_ne ref x -> load hf x = load h x) ->
+  split_st ref (next h) hf rootf N2 pm2 ->
+  (forall b c, In (b, c) (kids N2) -> stored hf c /\ sep c /\ ~ live c (next h) /\
+                                       (forall x, live c x -> live cur x \/ (next h <= x)%nat)) ->
+  (forall b1 c1 b2 c2 x, In (b1, c1) (kids N2) -> In (b2, c2) (kids N2) -> b1 <> b2 -> live c1 x -> live c2 x -> False) ->
+  ins_ok size os pm h root ref cur
+    (MDone hf rootf (if added then size + 1 else size)%Z os2 (map_pool pm2) tt)
+    (XIDone (XInner (xmap strip N2)) added, os2, pm2).
+Proof.
+  intros size os pm h root ref cur hf rootf N2 os2 pm2 added Hw Hout Hcs Hfr [Hwf Hlt Hrdf Hat Hk4 Hx Hp] Hk Hdis.
+  cbn [ins_ok fst snd]. split; [reflexivity|]. split; [reflexivity|]. split; [reflexivity|]. split; [exact Hp|]. split; [exact Hwf|].
+  destruct (assemble_new hf (next h) N2 (live cur) (next h) Hat Hx (Nat.le_refl _) Hk Hdis) as (T1 & T2 & T3).
+  exists (AInner (next h) N2). split; [reflexivity|]. split; [exact T1|]. split; [exact T2|]. split; [exact T3|].
+  cbn [aref]. split; [lia|].
+  assert (Hfar : forall x, (next hf <= x)%nat -> load hf x = load h x).
+  { intros x Hx0. rewrite (Hwf x Hx0). symmetry. apply Hw. lia. }
+  destruct ref as [| |a0 i0]; cbn [cell_set slot_out ref_addr_ne] in *; [contradiction| |].
+  - split; [exact Hcs|]. intros x [L|L] Hnl; [apply Hfr; auto|apply Hfar; exact L].
+  - destruct Hcs as (-> & nd & Hl0 & Hlt0 & Hlf). split; [reflexivity|]. split.
+    + intros x [L|L] Hnl Hne; [apply Hfr; auto|apply Hfar; exact L].
+    + exists nd. auto.
+Qed.
+
+(* ---- the leaf split: the block of the generated loop from "leafKey := nl.getTransformKey()" on ---- *)
+Definition leaf_split_block (gk tk : list N) (val : Z) (h : heap) (root : href) (size : Z) (os : list choice) (p : hpool)
+                            (ref : slot) (n : href) (depth : Z) (nl : addr) : mres unit :=
+  let leafKey := h_leaf_tk h nl in
+  let '(nn, p) := Pool.get (Pool.nxt os) K4 p in
+  let os := tl os in
+  let '(newNode, h) := alloc h (HNode nn) in
+  match g_longestCommonPrefix leafKey tk depth with
+  | GRet r_2 =>
+  let longestPrefix := r_2 in
+  let h := h_set_prefixLen h newNode (u32_of_int longestPrefix) in
+  match slice_from tk depth with None => MPanic | Some v_6 =>
+  let h := h_set_prefix h newNode (gcopy 0 v_6 (h_prefix h newNode)) in
+  match slot_write h root ref (Some newNode) with None => MPanic | Some (h, root) =>
+  let splitPrefix := Z.add depth longestPrefix in
+  let k2 := fun (h : heap) (root : href) (size : Z) (os : list choice) (p : hpool) =>
+    let k1 := fun (h : heap) (root : href) (size : Z) (os : list choice) (p : hpool) =>
+      let size := Z.add size 1%Z in
+      MDone h root size os p tt in
+    if Z.ltb splitPrefix (Z.of_nat (List.length tk)) then (
+      let '(l, h) := alloc h (h_mk_leaf gk (u32_of_int (Z.of_nat (List.length gk))) tk (u32_of_int (Z.of_nat (List.length tk))) val) in
+      let leafRef := Some l in
+      match GoTree.idx_bytes tk splitPrefix with None => MPanic | Some v_7 =>
+      match h_node4_addChild h root newNode ref v_7 leafRef os p with None => MPanic | Some (h, os, p) =>
+      k1 h root size os p
+      end
+      end
+    ) else (
+      k1 h root size os p
+    ) in
+  if Z.ltb splitPrefix (Z.of_nat (List.length leafKey)) then (
+    match GoTree.idx_bytes leafKey splitPrefix with None => MPanic | Some v_8 =>
+    match h_node4_addChild h root newNode ref v_8 n os p with None => MPanic | Some (h, os, p) =>
+    k2 h root size os p
+    end
+    end
+  ) else (
+    k2 h root size os p
+  )
+  end
+  end
+  | GPanic => MPanic
+  | GFuel => MFuel
+  end.
+
+Lemma leaf_split_ok : forall gk tk val h root size os pm ref a gk0 tk0 v0 d f,
+  hwf h -> stored h (ALeaf a gk0 tk0 v0) -> slot_read h root ref = Some (Some a) -> slot_out ref (ALeaf a gk0 tk0 v0) ->
+  zero_pool pm -> isbytes tk0 = true -> isbytes tk = true -> (d <= length tk)%nat ->
+  N.of_nat (length gk) < M32 -> N.of_nat (length tk) < M32 -> beq gk gk0 = false ->
+  ins_ok size os pm h root ref (ALeaf a gk0 tk0 v0)
+    (leaf_split_block gk tk val h root size os (map_pool pm) ref (Some a) (Z.of_nat d) a)
+    (xinsert (S f) (XLeaf gk0 tk0 v0) gk tk val d os pm).
+Proof.
+  intros gk tk val h root size os pm ref a gk0 tk0 v0 d f Hw Hst Hrd Hout Hzp Hb0 Hbt Hd Hlg Hlt Hne.
+  destruct (h_cast_leaf_stored _ _ _ _ _ Hst) as (_ & _ & Etk).
+  destruct (get_zero4 os pm Hzp) as (Eg & Eg1 & Hz0).
+  unfold leaf_split_block. rewrite Etk, Eg. cbv beta iota zeta.
+  rewrite (surjective_pairing (alloc h (HNode (xzero K4)))). cbv beta iota zeta.
+  destruct (alloc_spec h (HNode (xzero K4))) as (Ea & Hla & Hfa & Hna).
+  set (h1 := snd (alloc h (HNode (xzero K4)))) in *. rewrite Ea. set (a' := next h) in *.
+  rewrite gen_longestCommonPrefix_eq. set (lp := longestCommonPrefix tk0 tk d).
+  assert (Hlp : (lp <= length tk)%nat).
+  { subst lp. unfold longestCommonPrefix. pose proof (lcpn_le (Nat.min (length tk0) (length tk) - d) (skipn d tk0) (skipn d tk)). lia. }
+  rewrite (u32_of_nat lp) by lia. rewrite (slice_from_nat tk d Hd).
+  destruct (new4_node lp (skipn d tk) os pm Hzp) as (EN0 & ES0 & EP0 & HxN0 & HkN0).
+  set (N0 := fst (xnew4 lp (skipn d tk) os (apool pm))) in *.
+  assert (A0 : nodeat h1 a' (xzero K4)) by (unfold nodeat; rewrite Hla, xzero_xmap; reflexivity).
+  rewrite (set_prefixLen_at h1 a' _ _ A0).
+  set (h2 := store h1 a' (HNode (xmap aref (s_prefixLen (N.of_nat lp) (xzero K4))))).
+  assert (A1 : nodeat h2 a' (s_prefixLen (N.of_nat lp) (xzero K4))) by apply nodeat_store.
+  unfold h_prefix. rewrite (h_hdr_at _ _ _ A1), (set_prefix_at h2 a' _ _ A1).
+  replace (s_prefix (gcopy 0 (skipn d tk) (xprefix (xh (s_prefixLen (N.of_nat lp) (xzero K4))))) (s_prefixLen (N.of_nat lp) (xzero K4)))
+    with N0.
+  2:{ rewrite EN0. cbn [xzero s_prefixLen s_prefix s_node xh]. unfold hs_prefix, hs_prefixLen. rewrite Nat2N.id. reflexivity. }
+  set (h3 := store h2 a' (HNode (xmap aref N0))).
+  assert (A3 : nodeat h3 a' N0) by apply nodeat_store.
+  assert (Hlt' : forall x, load h x <> None -> x <> a') by (intros x Hx0 ->; apply Hx0; apply Hw; subst a'; lia).
+  assert (H3same : forall x, x <> a' -> load h3 x = load h x).
+  { intros x Hx0. subst h3 h2. rewrite !load_store_other by exact Hx0. apply Hfa. exact Hx0. }
+  destruct (slot_write_gen h h3 root ref (Some a) (Some a') Hrd) as (h4 & root4 & Ew & Hw4).
+  { destruct ref as [| |a0 i0]; [exact I|exact I|]. apply H3same. apply Hlt'.
+    destruct (slot_read_inv _ _ _ _ _ Hrd) as (nd & Hl0 & _). rewrite Hl0. discriminate. }
+  rewrite Ew. clear Ew.
+  assert (Ha_lt : (a < next h)%nat) by (apply (live_lt h _ a Hw Hst); apply (live_root (ALeaf a gk0 tk0 v0))).
+  assert (Haw : ref_away ref a').
+  { destruct ref as [| |a0 i0]; cbn [ref_away]; try exact I. apply Hlt'.
+    destruct (slot_read_inv _ _ _ _ _ Hrd) as (nd & Hl0 & _). rewrite Hl0. discriminate. }
+  assert (Hw3 : hwf h3).
+  { subst h3 h2. apply hwf_store; [apply hwf_store; [apply hwf_alloc; exact Hw|]|]; rewrite ?next_store; fold h1; rewrite Hna; subst a'; lia. }
+  assert (Hn3 : next h3 = S (next h)) by (subst h3 h2; rewrite !next_store; exact Hna).
+  set (pm0 := snd (get (nxt os) K4 pm)) in *.
+  assert (S4 : split_st ref a' h4 root4 N0 pm0 /\ cell_set h root ref a' root4 h4 /\
+               (forall x, (x < next h)%nat -> ref_addr_ne ref x -> load h4 x = load h x) /\ next h4 = S (next h)).
+  { destruct ref as [| |a0 i0]; cbn [cell_set ref_addr_ne ref_away] in *; [contradiction| |].
+    - destruct Hw4 as (-> & ->). split; [|split; [reflexivity|split; [|exact Hn3]]].
+      + constructor; try assumption; [lia|reflexivity|rewrite EN0; reflexivity].
+      + intros x Hx0 _. apply H3same. subst a'. lia.
+    - destruct Hw4 as (-> & nd & Hl0 & Hlt0 & ->).
+      assert (Ha0 : (a0 < next h)%nat) by (apply hwf_lt; [exact Hw|rewrite Hl0; discriminate]).
+      split; [|split; [|split; [|rewrite next_store; exact Hn3]]].
+      + constructor; try assumption.
+        * apply hwf_store; [exact Hw3|lia].
+        * rewrite next_store. lia.
+        * cbn [slot_read]. rewrite load_store_same, xch_s_children. apply nth_error_set_at_eq. exact Hlt0.
+        * unfold nodeat. rewrite load_store_other by (intros E; apply Haw; symmetry; exact E). exact A3.
+        * rewrite EN0. reflexivity.
+      + split; [reflexivity|]. exists nd. split; [exact Hl0|]. split; [exact Hlt0|apply load_store_same].
+      + intros x Hx0 Hnq. rewrite load_store_other by exact Hnq. apply H3same. subst a'. lia. }
+  destruct S4 as (S4 & C4 & F4 & Hn4).
+  assert (Hl0z : xlen (xh N0) = 0) by (rewrite EN0; reflexivity).
+  (* what the final heap must keep, and what it gives *)
+  assert (Hfin : forall hf, (forall x, (x < next h)%nat -> load hf x = load h4 x) ->
+            cell_set h root ref a' root4 hf /\
+            (forall x, (x < next h)%nat -> ~ live (ALeaf a gk0 tk0 v0) x -> ref_addr_ne ref x -> load hf x = load h x) /\
+            (stored hf (ALeaf a gk0 tk0 v0) /\ sep (ALeaf a gk0 tk0 v0) /\ ~ live (ALeaf a gk0 tk0 v0) a' /\
+             (forall x, live (ALeaf a gk0 tk0 v0) x -> live (ALeaf a gk0 tk0 v0) x \/ (next h <= x)%nat))).
+  { intros hf G1. split; [|split].
+    - destruct ref as [| |a0 i0]; cbn [cell_set] in *; [contradiction|exact C4|].
+      destruct C4 as (-> & nd & Hl0 & Hlt0 & Hl4). split; [reflexivity|]. exists nd. split; [exact Hl0|]. split; [exact Hlt0|].
+      rewrite G1; [exact Hl4|]. apply hwf_lt; [exact Hw|rewrite Hl0; discriminate].
+    - intros x Hx0 _ Hnq. rewrite G1 by exact Hx0. apply F4; assumption.
+    - split; [|split; [constructor|split; [|auto]]].
+      + constructor. rewrite G1 by exact Ha_lt. rewrite F4; [exact (stored_load _ _ Hst)|exact Ha_lt|].
+        destruct ref as [| |a0 i0]; cbn [ref_addr_ne slot_out] in *; try exact I.
+        intros ->. apply Hout. apply (live_root (ALeaf a0 gk0 tk0 v0)).
+      + intros Hl. apply live_leaf in Hl. subst a'. lia. }
+  (* the model *)
+  cbn [xinsert]. rewrite Hne. fold lp. rewrite ES0, EP0. fold pm0.
+  rewrite <- !Nat2Z.inj_add, !idx_bytes_nat.
+  set (curL := ALeaf a gk0 tk0 v0) in *.
+  rewrite (mk_leaf_full gk tk val Hlg Hlt).
+  destruct (nth_error tk0 (d + lp)) as [b1|] eqn:E1.
+  - replace (Z.of_nat (d + lp) <? Z.of_nat (length tk0))%Z with true
+      by (symmetry; apply Z.ltb_lt; assert (d + lp < length tk0)%nat by (apply nth_error_Some; rewrite E1; discriminate); lia).
+    assert (Hb1 : b1 < 256) by (apply (nth_byte _ _ _ Hb0 E1)).
+    destruct (split_add ref a' h4 root4 N0 pm0 (tl os) b1 curL S4 Haw) as (Ead1 & S5 & EX1 & Ek1 & El1);
+      [rewrite Hl0z; reflexivity|exact Hb1|rewrite HkN0; reflexivity|].
+    cbv zeta in Ead1. cbn [aref curL] in Ead1. rewrite Ead1. cbv beta iota zeta.
+    set (N1 := fst (xadd N0 b1 curL (tl os) (apool pm0))) in *.
+    set (pm1 := snd (xadd (xmap strip N0) b1 (strip curL) (tl os) pm0)) in *.
+    set (h5 := store h4 a' (HNode (xmap aref N1))) in *.
+    assert (G5 : forall x, (x < next h)%nat -> load h5 x = load h4 x).
+    { intros x Hx0. subst h5. apply load_store_other. subst a'. lia. }
+    destruct (nth_error tk (d + lp)) as [b2|] eqn:E2.
+    + replace (Z.of_nat (d + lp) <? Z.of_nat (length tk))%Z with true
+        by (symmetry; apply Z.ltb_lt; assert (d + lp < length tk)%nat by (apply nth_error_Some; rewrite E2; discriminate); lia).
+      assert (Hb2 : b2 < 256) by (apply (nth_byte _ _ _ Hbt E2)).
+      assert (Hn12 : b1 <> b2) by (apply (lcp_split_ne tk0 tk d b1 b2 E1 E2)).
+      rewrite (surjective_pairing (alloc h5 (HLeaf gk tk val))). cbv beta iota zeta.
+      destruct (split_alloc ref a' h5 root4 N1 pm1 (HLeaf gk tk val) S5) as (S6 & Hl6 & Hf6 & Hn6).
+      destruct (alloc_spec h5 (HLeaf gk tk val)) as (Ea6 & _). rewrite Ea6.
+      set (h6 := snd (alloc h5 (HLeaf gk tk val))) in *. set (lnew := next h5) in *.
+      destruct (split_add ref a' h6 root4 N1 pm1 (skipn (xadd_gets (xmap strip N0)) (tl os)) b2 (ALeaf lnew gk tk val) S6 Haw)
+        as (Ead2 & S7 & EX2 & Ek2 & El2);
+        [rewrite El1, Hl0z; reflexivity|exact Hb2| |].
+      { rewrite Ek1, HkN0. cbn [ins_sorted assoc]. destruct (N.eqb_spec b1 b2); [contradiction|reflexivity]. }
+      cbv zeta in Ead2. cbn [aref] in Ead2. rewrite Ead2. cbv beta iota zeta.
+      set (N2 := fst (xadd N1 b2 (ALeaf lnew gk tk val) (skipn (xadd_gets (xmap strip N0)) (tl os)) (apool pm1))) in *.
+      set (h7 := store h6 a' (HNode (xmap aref N2))) in *.
+      cbn [fst snd]. cbn [strip curL] in EX1, EX2. rewrite EX1. cbn [fst snd].
+      change (snd (xadd (xmap strip N0) b1 (XLeaf gk0 tk0 v0) (tl os) pm0)) with pm1. rewrite EX2.
+      assert (Hn5 : next h5 = S (next h)) by (subst h5; rewrite next_store; exact Hn4).
+      assert (G7 : forall x, (x < next h)%nat -> load h7 x = load h4 x).
+      { intros x Hx0. subst h7. rewrite load_store_other by (subst a'; lia). rewrite Hf6 by (subst lnew; lia). apply G5. exact Hx0. }
+      destruct (Hfin h7 G7) as (Cf & Ff & Kc).
+      apply (split_done size os pm h root ref curL h7 root4 N2 _ _ true Hw Hout Cf Ff S7).
+      * intros b c Hin. rewrite Ek2, Ek1, HkN0 in Hin. apply in_ins_sorted in Hin. destruct Hin as [E|Hin].
+        { injection E as Eb Ec; subst b c. split; [|split; [constructor|split]].
+          - constructor. subst h7. rewrite load_store_other by (subst lnew a'; lia). exact Hl6.
+          - intros Hl. apply live_leaf in Hl. subst lnew a'. lia.
+          - intros x Hl. apply live_leaf in Hl. right. subst x lnew. lia. }
+        apply in_ins_sorted in Hin. destruct Hin as [E|[]]. injection E as Eb Ec; subst b c. exact Kc.
+      * intros b3 c3 b4 c4 x H3 H4 Hn34 L3 L4. rewrite Ek2, Ek1, HkN0 in H3, H4.
+        apply in_ins_sorted in H3. apply in_ins_sorted in H4.
+        destruct H3 as [E3|H3]; [|apply in_ins_sorted in H3; destruct H3 as [E3|[]]];
+        destruct H4 as [E4|H4]; try (apply in_ins_sorted in H4; destruct H4 as [E4|[]]);
+          injection E3 as Eb3 Ec3; injection E4 as Eb4 Ec4; subst b3 c3 b4 c4; try contradiction;
+          apply live_leaf in L3; apply live_leaf in L4; subst lnew; lia.
+    + replace (Z.of_nat (d + lp) <? Z.of_nat (length tk))%Z with false
+        by (symmetry; apply Z.ltb_ge; apply nth_error_None in E2; lia).
+      cbn [fst snd]. cbn [strip curL] in EX1. rewrite EX1.
+      destruct (Hfin h5 G5) as (Cf & Ff & Kc).
+      apply (split_done size os pm h root ref curL h5 root4 N1 _ _ true Hw Hout Cf Ff S5).
+      * intros b c Hin. rewrite Ek1, HkN0 in Hin. apply in_ins_sorted in Hin. destruct Hin as [E|[]].
+        injection E as Eb Ec; subst b c. exact Kc.
+      * intros b3 c3 b4 c4 x H3 H4 Hn34. rewrite Ek1, HkN0 in H3, H4.
+        apply in_ins_sorted in H3. apply in_ins_sorted in H4. destruct H3 as [E3|[]]. destruct H4 as [E4|[]].
+        injection E3 as Eb3 Ec3. injection E4 as Eb4 Ec4. subst b3 c3 b4 c4. contradiction.
+  - replace (Z.of_nat (d + lp) <? Z.of_nat (length tk0))%Z with false
+      by (symmetry; apply Z.ltb_ge; apply nth_error_None in E1; lia).
+    assert (G4 : forall x, (x < next h)%nat -> load h4 x = load h4 x) by reflexivity.
+    destruct (nth_error tk (d + lp)) as [b2|] eqn:E2.
+    + replace (Z.of_nat (d + lp) <? Z.of_nat (length tk))%Z with true
+        by (symmetry; apply Z.ltb_lt; assert (d + lp < length tk)%nat by (apply nth_error_Some; rewrite E2; discriminate); lia).
+      assert (Hb2 : b2 < 256) by (apply (nth_byte _ _ _ Hbt E2)).
+      rewrite (surjective_pairing (alloc h4 (HLeaf gk tk val))). cbv beta iota zeta.
+      destruct (split_alloc ref a' h4 root4 N0 pm0 (HLeaf gk tk val) S4) as (S6 & Hl6 & Hf6 & Hn6).
+      destruct (alloc_spec h4 (HLeaf gk tk val)) as (Ea6 & _). rewrite Ea6.
+      set (h6 := snd (alloc h4 (HLeaf gk tk val))) in *. set (lnew := next h4) in *.
+      destruct (split_add ref a' h6 root4 N0 pm0 (tl os) b2 (ALeaf lnew gk tk val) S6 Haw) as (Ead2 & S7 & EX2 & Ek2 & El2);
+        [rewrite Hl0z; reflexivity|exact Hb2|rewrite HkN0; reflexivity|].
+      cbv zeta in Ead2. cbn [aref] in Ead2. rewrite Ead2. cbv beta iota zeta.
+      set (N2 := fst (xadd N0 b2 (ALeaf lnew gk tk val) (tl os) (apool pm0))) in *.
+      set (h7 := store h6 a' (HNode (xmap aref N2))) in *.
+      cbn [fst snd]. rewrite ES0, EP0. cbn [strip] in EX2. rewrite EX2.
+      assert (G7 : forall x, (x < next h)%nat -> load h7 x = load h4 x).
+      { intros x Hx0. subst h7. rewrite load_store_other by (subst a'; lia). apply Hf6. subst lnew. lia. }
+      destruct (Hfin h7 G7) as (Cf & Ff & Kc).
+      apply (split_done size os pm h root ref curL h7 root4 N2 _ _ true Hw Hout Cf Ff S7).
+      * intros b c Hin. rewrite Ek2, HkN0 in Hin. apply in_ins_sorted in Hin. destruct Hin as [E|[]].
+        injection E as Eb Ec; subst b c. split; [|split; [constructor|split]].
+        { constructor. subst h7. rewrite load_store_other by (subst lnew a'; lia). exact Hl6. }
+        { intros Hl. apply live_leaf in Hl. subst lnew a'. lia. }
+        { intros x Hl. apply live_leaf in Hl. right. subst x lnew. lia. }
+      * intros b3 c3 b4 c4 x H3 H4 Hn34. rewrite Ek2, HkN0 in H3, H4.
+        apply in_ins_sorted in H3. apply in_ins_sorted in H4. destruct H3 as [E3|[]]. destruct H4 as [E4|[]].
+        injection E3 as Eb3 Ec3. injection E4 as Eb4 Ec4. subst b3 c3 b4 c4. contradiction.
+    + replace (Z.of_nat (d + lp) <? Z.of_nat (length tk))%Z with false
+        by (symmetry; apply Z.ltb_ge; apply nth_error_None in E2; lia).
+      cbn [fst snd]. rewrite ?ES0, ?EP0.
+      destruct (Hfin h4 G4) as (Cf & Ff & Kc).
+      apply (split_done size os pm h root ref curL h4 root4 N0 _ _ true Hw Hout Cf Ff S4).
+      * intros b c Hin. rewrite HkN0 in Hin. destruct Hin.
+      * intros b3 c3 b4 c4 x H3. rewrite HkN0 in H3. destruct H3.
+Qed.
+
+(* ---- the compressed-path split: the block of the generated loop from the second Get on ---- *)
+Definition path_split_block (gk tk : list N) (val : Z) (h : heap) (root : href) (size : Z) (os : list choice) (p : hpool)
+                            (ref : slot) (n : href) (depth : Z) (node : addr) (prefixDiff : Z) : mres unit :=
+  let '(nn_2, p) := Pool.get (Pool.nxt os) K4 p in
+  let os := tl os in
+  let '(newNode_2, h) := alloc h (HNode nn_2) in
+  match slot_write h root ref (Some newNode_2) with None => MPanic | Some (h, root) =>
+  let h := h_set_prefixLen h newNode_2 (u32_of_int prefixDiff) in
+  let h := h_set_prefix h newNode_2 (h_prefix h node) in
+  let k4 := fun (h : heap) (root : href) (size : Z) (os : list choice) (p : hpool) =>
+    if Z.leb (Z.of_nat (List.length tk)) (Z.add depth prefixDiff) then (
+      MDone h root size os p tt
+    ) else (
+      let '(l_3, h) := alloc h (h_mk_leaf gk (u32_of_int (Z.of_nat (List.length gk))) tk (u32_of_int (Z.of_nat (List.length tk))) val) in
+      let leafRef_3 := Some l_3 in
+      match GoTree.idx_bytes tk (Z.add depth prefixDiff) with None => MPanic | Some v_16 =>
+      match h_node4_addChild h root newNode_2 ref v_16 leafRef_3 os p with None => MPanic | Some (h, os, p) =>
+      let size := Z.add size 1%Z in
+      MDone h root size os p tt
+      end
+      end
+    ) in
+  if N.leb (h_prefixLen h node) gm_maxPrefixLen then (
+    match GoTree.idx_bytes (h_prefix h node) prefixDiff with None => MPanic | Some v_17 =>
+    match h_node4_addChild h root newNode_2 ref v_17 n os p with None => MPanic | Some (h, os, p) =>
+    let loLimit := Z.add prefixDiff 1%Z in
+    let h := h_set_prefixLen h node (subw 32 (h_prefixLen h node) (u32_of_int loLimit)) in
+    match slice_from (h_prefix h node) loLimit with None => MPanic | Some v_18 =>
+    let h := h_set_prefix h node (gcopy 0 v_18 (h_prefix h node)) in
+    k4 h root size os p
+    end
+    end
+    end
+  ) else (
+    let h := h_set_prefixLen h node (subw 32 (h_prefixLen h node) (u32_of_int (Z.add prefixDiff 1%Z))) in
+    match h_minimum h n with
+    | GRet r_4 =>
+    match cast_leaf r_4 with None => MPanic | Some v_19 =>
+    let leafMin := v_19 in
+    let leafKey_2 := xleaf_tk leafMin in
+    match GoTree.idx_bytes leafKey_2 (Z.add depth prefixDiff) with None => MPanic | Some v_20 =>
+    match h_node4_addChild h root newNode_2 ref v_20 n os p with None => MPanic | Some (h, os, p) =>
+    let loLimit_2 := Z.add (Z.add depth prefixDiff) 1%Z in
+    match slice_from leafKey_2 loLimit_2 with None => MPanic | Some v_21 =>
+    let h := h_set_prefix h node (gcopy 0 v_21 (h_prefix h node)) in
+    k4 h root size os p
+    end
+    end
+    end
+    end
+    | GPanic => MPanic
+    | GFuel => MFuel
+    end
+  )
+  end.
+
+(* the generated loops contain exactly these blocks (checked again where they are used) *)
+Lemma path_split_ok : forall gk tk val h root size os pm ref a n d P x lgk ltk lv,
+  hwf h -> stored h (AInner a n) -> sep (AInner a n) -> slot_read h root ref = Some (Some a) ->
+  slot_out ref (AInner a n) -> zero_pool pm -> isbytes tk = true ->
+  N.of_nat (length gk) < M32 -> N.of_nat (length tk) < M32 -> N.of_nat (xplen (xh n)) < M32 ->
+  WF d (tabs (strip (AInner a n))) ->
+  (P < xplen (xh n))%nat ->
+  minimum (tabs (strip (AInner a n))) = Some (Leaf lgk ltk lv) ->
+  x < 256 -> nth_error ltk (d + P) = Some x ->
+  ((xplen (xh n) <= maxPrefixLen)%nat -> nth_error (xprefix (xh n)) P = Some x) ->
+  (forall b2, nth_error tk (d + P) = Some b2 -> x <> b2) ->
+  ins_ok size os pm h root ref (AInner a n)
+    (path_split_block gk tk val h root size os (map_pool pm) ref (Some a) (Z.of_nat d) a (Z.of_nat P))
+    (let hd := xh n in
+     let g := xnew4 P (xprefix hd) os pm in
+     let os1 := tl os in
+     let r :=
+       if (xplen hd <=? maxPrefixLen)%nat then
+         match nth_error (xprefix hd) P with
+         | None => None
+         | Some b => Some (b, xset_hdr (xmap strip n) (xplen hd - S P) (copy_into (xprefix hd) (skipn (S P) (xprefix hd))))
+         end
+       else
+         match nth_error ltk (d + P) with
+         | None => None
+         | Some b => Some (b, xset_hdr (xmap strip n) (xplen hd - (P + 1)) (copy_into (xprefix hd) (skipn (d + P + 1) ltk)))
+         end in
+     match r with
+     | None => (XIPanic, os1, snd g)
+     | Some (b, n') =>
+       let a1 := xadd (fst g) b (XInner n') os1 (snd g) in
+       let os2 := skipn (xadd_gets (fst g)) os1 in
+       match nth_error tk (d + P) with
+       | None => (XIDone (XInner (fst a1)) false, os2, snd a1)
+       | Some b2 =>
+         let a2 := xadd (fst a1) b2 (XLeaf gk tk val) os2 (snd a1) in
+         (XIDone (XInner (fst a2)) true, skipn (xadd_gets (fst a1)) os2, snd a2)
+       end
+     end).
+Proof.
+  intros gk tk val h root size os pm ref a n d P x lgk ltk lv Hw Hst Hsep Hrd Hout Hzp Hbt Hlg Hlt Hp32 Hwf HP Hmin Hx256 Elk Epfx Hne2.
+  destruct (stored_inv _ _ _ Hst) as (Hl & Hx & Hk). destruct (sep_inv _ _ Hsep) as (S1 & S2 & S3).
+  pose proof (xwf_prefix_len n Hx) as Hpl.
+  set (p0 := xplen (xh n)) in *. set (pfx := xprefix (xh n)) in *.
+  destruct (get_zero4 os pm Hzp) as (Eg & Eg1 & Hz0).
+  unfold path_split_block. rewrite Eg. cbv beta iota zeta.
+  rewrite (surjective_pairing (alloc h (HNode (xzero K4)))). cbv beta iota zeta.
+  destruct (alloc_spec h (HNode (xzero K4))) as (Ea & Hla & Hfa & Hna).
+  set (h1 := snd (alloc h (HNode (xzero K4)))) in *. rewrite Ea. set (a' := next h) in *.
+  assert (Hlt' : forall y, load h y <> None -> y <> a') by (intros y Hy ->; apply Hy; apply Hw; subst a'; lia).
+  assert (Ha_lt : (a < next h)%nat) by (apply hwf_lt; [exact Hw|rewrite Hl; discriminate]).
+  destruct (slot_write_gen h h1 root ref (Some a) (Some a') Hrd) as (h4 & root4 & Ew & Hw4).
+  { destruct ref as [| |a0 i0]; [exact I|exact I|]. apply Hfa. apply Hlt'.
+    destruct (slot_read_inv _ _ _ _ _ Hrd) as (nd & Hl0 & _). rewrite Hl0. discriminate. }
+  rewrite Ew. clear Ew.
+  assert (Haw : ref_away ref a').
+  { destruct ref as [| |a0 i0]; cbn [ref_away]; try exact I. apply Hlt'.
+    destruct (slot_read_inv _ _ _ _ _ Hrd) as (nd & Hl0 & _). rewrite Hl0. discriminate. }
+  assert (Hra : ref_addr_ne ref a).
+  { destruct ref as [| |a0 i0]; cbn [ref_addr_ne slot_out] in *; try exact I. intros ->. apply Hout. apply (live_root (AInner a0 n)). }
+  set (pm0 := snd (get (nxt os) K4 pm)) in *.
+  assert (Hw1 : hwf h1) by (apply hwf_alloc; exact Hw).
+  assert (F4 : hwf h4 /\ next h4 = S (next h) /\ nodeat h4 a' (xzero K4) /\ slot_read h4 root4 ref = Some (Some a') /\
+               cell_set h root ref a' root4 h4 /\ (forall y, (y < next h)%nat -> ref_addr_ne ref y -> load h4 y = load h y)).
+  { destruct ref as [| |a0 i0]; cbn [cell_set ref_addr_ne ref_away] in *; [contradiction| |].
+    - destruct Hw4 as (-> & ->). split; [exact Hw1|]. split; [exact Hna|]. split; [unfold nodeat; rewrite Hla, xzero_xmap; reflexivity|].
+      split; [reflexivity|]. split; [reflexivity|]. intros y Hy _. apply Hfa. subst a'. lia.
+    - destruct Hw4 as (-> & nd & Hl0 & Hlt0 & ->).
+      assert (Ha0 : (a0 < next h)%nat) by (apply hwf_lt; [exact Hw|rewrite Hl0; discriminate]).
+      split; [apply hwf_store; [exact Hw1|rewrite Hna; subst a'; lia]|]. split; [rewrite next_store; exact Hna|].
+      split; [unfold nodeat; rewrite load_store_other by (intros E; apply Haw; symmetry; exact E); rewrite Hla, xzero_xmap; reflexivity|].
+      split; [cbn [slot_read]; rewrite load_store_same, xch_s_children; apply nth_error_set_at_eq; exact Hlt0|].
+      split; [split; [reflexivity|]; exists nd; split; [exact Hl0|]; split; [exact Hlt0|apply load_store_same]|].
+      intros y Hy Hnq. rewrite load_store_other by exact Hnq. apply Hfa. subst a'. lia. }
+  destruct F4 as (Hw4' & Hn4 & A4 & Hrd4 & C4 & G4).
+  rewrite (u32_of_nat P) by lia.
+  rewrite (set_prefixLen_at h4 a' _ _ A4).
+  set (h5 := store h4 a' (HNode (xmap aref (s_prefixLen (N.of_nat P) (xzero K4))))).
+  assert (A5 : nodeat h5 a' (s_prefixLen (N.of_nat P) (xzero K4))) by apply nodeat_store.
+  assert (Aa5 : nodeat h5 a n).
+  { unfold nodeat. subst h5. rewrite load_store_other by (apply Hlt'; rewrite Hl; discriminate). rewrite G4 by assumption. exact Hl. }
+  assert (E5 : h_prefix h5 a = pfx) by (unfold h_prefix; rewrite (h_hdr_at _ _ _ Aa5); reflexivity).
+  rewrite E5.
+  destruct (new4_node P pfx os pm Hzp) as (EN0 & ES0 & EP0 & HxN0 & HkN0).
+  set (N0 := fst (xnew4 P pfx os (apool pm))) in *. fold pm0 in EP0.
+  assert (Epf : gcopy 0 pfx (xprefix xhdr0) = pfx).
+  { rewrite gcopy0_over by (cbn [xhdr0 xprefix]; rewrite repeat_length; lia).
+    cbn [xhdr0 xprefix]. rewrite repeat_length, <- Hpl. apply firstn_all. }
+  assert (E6 : h_set_prefix h5 a' pfx = store h5 a' (HNode (xmap aref N0))).
+  { rewrite (set_prefix_at h5 a' _ _ A5). f_equal. f_equal. f_equal.
+    rewrite EN0, Epf. cbn [xzero s_prefixLen s_prefix s_node xh]. unfold hs_prefix, hs_prefixLen. rewrite Nat2N.id. reflexivity. }
+  rewrite E6.
+  set (h6 := store h5 a' (HNode (xmap aref N0))).
+  assert (S6 : split_st ref a' h6 root4 N0 pm0).
+  { constructor.
+    - subst h6 h5. apply hwf_store; [apply hwf_store; [exact Hw4'|]|]; rewrite ?next_store, Hn4; subst a'; lia.
+    - subst h6 h5. rewrite !next_store, Hn4. subst a'. lia.
+    - subst h6 h5. rewrite !slot_read_store_other by exact Haw. exact Hrd4.
+    - apply nodeat_store.
+    - rewrite EN0. reflexivity.
+    - exact HxN0.
+    - exact Hz0. }
+  assert (G6 : forall y, (y < next h)%nat -> load h6 y = load h4 y).
+  { intros y Hy. subst h6 h5. rewrite !load_store_other by (subst a'; lia). reflexivity. }
+  assert (Aa6 : nodeat h6 a n) by (unfold nodeat; rewrite G6 by exact Ha_lt; rewrite G4 by assumption; exact Hl).
+  assert (Hl0z : xlen (xh N0) = 0) by (rewrite EN0; reflexivity).
+  fold h6.
+  assert (E7 : h_prefixLen h6 a = N.of_nat p0) by (unfold h_prefixLen; rewrite (h_hdr_at _ _ _ Aa6); reflexivity).
+  assert (E8 : h_prefix h6 a = pfx) by (unfold h_prefix; rewrite (h_hdr_at _ _ _ Aa6); reflexivity).
+  rewrite E7, E8, gm_maxPrefixLen_val.
+  (* the old node with its header rewritten, whatever the new header is *)
+  assert (Hold : forall npl npx hf, length npx = maxPrefixLen ->
+            (forall y, (y < next h)%nat -> y <> a -> load hf y = load h4 y) -> nodeat hf a (xset_hdr n npl npx) ->
+            cell_set h root ref a' root4 hf /\
+            (forall y, (y < next h)%nat -> ~ live (AInner a n) y -> ref_addr_ne ref y -> load hf y = load h y) /\
+            (stored hf (AInner a (xset_hdr n npl npx)) /\ sep (AInner a (xset_hdr n npl npx)) /\
+             ~ live (AInner a (xset_hdr n npl npx)) a' /\
+             (forall y, live (AInner a (xset_hdr n npl npx)) y -> live (AInner a n) y))).
+  { intros npl npx hf Hlen Gf Af.
+    destruct (xset_hdr_xwf n npl npx Hx Hlen) as (Hx' & Ek').
+    assert (Ekids : kids (xset_hdr n npl npx) = kids n) by exact Ek'.
+    assert (Hlive : forall y, live (AInner a (xset_hdr n npl npx)) y -> live (AInner a n) y).
+    { intros y Hy. destruct (live_inv _ _ Hy) as [->|(a1 & n1 & b1 & c1 & E & Hin1 & Hl1)]; [apply (live_root (AInner a n))|].
+      injection E as <- <-. rewrite Ekids in Hin1. eapply live_kid; eauto. }
+    split; [|split].
+    - destruct ref as [| |a0 i0]; cbn [cell_set] in *; [contradiction|exact C4|].
+      destruct C4 as (-> & nd & Hl0 & Hlt0 & Hl4). split; [reflexivity|]. exists nd. split; [exact Hl0|]. split; [exact Hlt0|].
+      rewrite Gf; [exact Hl4|apply hwf_lt; [exact Hw|rewrite Hl0; discriminate]|].
+      cbn [ref_addr_ne] in Hra. intros E. apply Hra. symmetry. exact E.
+    - intros y Hy Hnl Hnq. rewrite Gf; [apply G4; assumption|exact Hy|].
+      intros ->. apply Hnl. apply (live_root (AInner a n)).
+    - split; [|split; [|split]].
+      + constructor; [exact Af|exact Hx'|]. intros b1 c1 Hin1. rewrite Ekids in Hin1.
+        apply (stored_frame h); [apply (Hk _ _ Hin1)|]. intros y Hy.
+        assert (Hyl : live (AInner a n) y) by (eapply live_kid; eauto).
+        rewrite Gf; [apply G4; [eapply live_lt; eauto|]|eapply live_lt; eauto|intros ->; exact (S2 _ _ Hin1 Hy)].
+        destruct ref as [| |a0 i0]; cbn [ref_addr_ne slot_out] in *; try exact I. intros ->. contradiction.
+      + constructor; intros; rewrite ?Ekids in *; eauto.
+      + intros Hy. apply Hlive in Hy. pose proof (live_lt h _ _ Hw Hst Hy). subst a'. lia.
+      + exact Hlive. }
+  (* the second half of both branches: the key's own leaf, if the key goes on *)
+  assert (Htail : forall npl npx h9 os1 pm1 N1, length npx = maxPrefixLen ->
+            split_st ref a' h9 root4 N1 pm1 -> nodeat h9 a (xset_hdr n npl npx) ->
+            (forall y, (y < next h)%nat -> y <> a -> load h9 y = load h4 y) ->
+            kids N1 = [(x, AInner a (xset_hdr n npl npx))] -> xlen (xh N1) = 1 ->
+            ins_ok size os pm h root ref (AInner a n)
+              (if (Z.of_nat (length tk) <=? Z.of_nat d + Z.of_nat P)%Z
+               then MDone h9 root4 size os1 (map_pool pm1) tt
+               else
+                 let '(l_3, h2) := alloc h9 (h_mk_leaf gk (u32_of_int (Z.of_nat (length gk))) tk (u32_of_int (Z.of_nat (length tk))) val) in
+                 match GoTree.idx_bytes tk (Z.of_nat d + Z.of_nat P) with
+                 | Some v_16 =>
+                   match h_node4_addChild h2 root4 a' ref v_16 (Some l_3) os1 (map_pool pm1) with
+                   | Some (h3, os2, p5) => MDone h3 root4 (size + 1) os2 p5 tt
+                   | None => MPanic
+                   end
+                 | None => MPanic
+                 end)
+              (match nth_error tk (d + P) with
+               | None => (XIDone (XInner (xmap strip N1)) false, os1, pm1)
+               | Some b2 =>
+                 let a2 := xadd (xmap strip N1) b2 (XLeaf gk tk val) os1 pm1 in
+                 (XIDone (XInner (fst a2)) true, skipn (xadd_gets (xmap strip N1)) os1, snd a2)
+               end)).
+  { intros npl npx h9 os1 pm1 N1 Hlen S9 A9 G9 Ek1 El1.
+    rewrite <- Nat2Z.inj_add, idx_bytes_nat, (mk_leaf_full gk tk val Hlg Hlt).
+    destruct (nth_error tk (d + P)) as [b2|] eqn:E2.
+    - replace (Z.of_nat (length tk) <=? Z.of_nat (d + P))%Z with false
+        by (symmetry; apply Z.leb_gt; assert (d + P < length tk)%nat by (apply nth_error_Some; rewrite E2; discriminate); lia).
+      assert (Hb2 : b2 < 256) by (apply (nth_byte _ _ _ Hbt E2)).
+      pose proof (Hne2 b2 eq_refl) as Hn12.
+      rewrite (surjective_pairing (alloc h9 (HLeaf gk tk val))). cbv beta iota zeta.
+      destruct (split_alloc ref a' h9 root4 N1 pm1 (HLeaf gk tk val) S9) as (S10 & Hl10 & Hf10 & Hn10).
+      destruct (alloc_spec h9 (HLeaf gk tk val)) as (Ea10 & _). rewrite Ea10.
+      set (h10 := snd (alloc h9 (HLeaf gk tk val))) in *. set (lnew := next h9) in *.
+      assert (Hlnew : (next h < lnew)%nat) by (destruct S9 as [_ L9 _ _ _ _ _]; subst lnew a'; lia).
+      destruct (split_add ref a' h10 root4 N1 pm1 os1 b2 (ALeaf lnew gk tk val) S10 Haw) as (Ead2 & S11 & EX2 & Ek2 & El2);
+        [rewrite El1; reflexivity|exact Hb2| |].
+      { rewrite Ek1. cbn [assoc]. destruct (N.eqb_spec x b2); [contradiction|reflexivity]. }
+      cbv zeta in Ead2. cbn [aref] in Ead2. rewrite Ead2. cbv beta iota zeta.
+      set (N2 := fst (xadd N1 b2 (ALeaf lnew gk tk val) os1 (apool pm1))) in *.
+      set (h11 := store h10 a' (HNode (xmap aref N2))) in *.
+      cbn [strip] in EX2. cbn [fst snd]. rewrite EX2.
+      assert (G11 : forall y, (y < next h)%nat -> y <> a -> load h11 y = load h4 y).
+      { intros y Hy Hna'. subst h11. rewrite load_store_other by (subst a'; lia). rewrite Hf10 by (subst lnew; lia). apply G9; assumption. }
+      assert (A11 : nodeat h11 a (xset_hdr n npl npx)).
+      { unfold nodeat. subst h11. rewrite load_store_other by (subst a'; lia). rewrite Hf10 by (subst lnew; lia). exact A9. }
+      destruct (Hold npl npx h11 Hlen G11 A11) as (Cf & Ff & Kc).
+      apply (split_done size os pm h root ref (AInner a n) h11 root4 N2 _ _ true Hw Hout Cf Ff S11).
+      + intros b c Hin. rewrite Ek2, Ek1 in Hin. apply in_ins_sorted in Hin. destruct Hin as [E|[E|[]]]; injection E as Eb Ec; subst b c.
+        * split; [|split; [constructor|split]].
+          -- constructor. subst h11. rewrite load_store_other by (subst lnew a'; lia). exact Hl10.
+          -- intros Hy. apply live_leaf in Hy. subst lnew a'. lia.
+          -- intros y Hy. apply live_leaf in Hy. right. subst y. lia.
+        * destruct Kc as (K1 & K2 & K3 & K4). repeat split; auto.
+      + intros b3 c3 b4 c4 y H3 H4 Hn34 L3 L4. rewrite Ek2, Ek1 in H3, H4.
+        apply in_ins_sorted in H3. apply in_ins_sorted in H4.
+        destruct H3 as [E3|[E3|[]]]; destruct H4 as [E4|[E4|[]]];
+          injection E3 as Eb3 Ec3; injection E4 as Eb4 Ec4; subst b3 c3 b4 c4; try contradiction.
+        * apply live_leaf in L3. subst y. destruct Kc as (_ & _ & _ & Kl).
+          pose proof (live_lt h _ _ Hw Hst (Kl _ L4)). lia.
+        * apply live_leaf in L4. subst y. destruct Kc as (_ & _ & _ & Kl).
+          pose proof (live_lt h _ _ Hw Hst (Kl _ L3)). lia.
+    - replace (Z.of_nat (length tk) <=? Z.of_nat (d + P))%Z with true
+        by (symmetry; apply Z.leb_le; apply nth_error_None in E2; lia).
+      destruct (Hold npl npx h9 Hlen G9 A9) as (Cf & Ff & Kc).
+      apply (split_done size os pm h root ref (AInner a n) h9 root4 N1 _ _ false Hw Hout Cf Ff S9).
+      + intros b c Hin. rewrite Ek1 in Hin. destruct Hin as [E|[]]. injection E as Eb Ec; subst b c.
+        destruct Kc as (K1 & K2 & K3 & K4). repeat split; auto.
+      + intros b3 c3 b4 c4 y H3 H4 Hn34. rewrite Ek1 in H3, H4. destruct H3 as [E3|[]]. destruct H4 as [E4|[]].
+        injection E3 as Eb3 Ec3. injection E4 as Eb4 Ec4. subst b3 b4. contradiction. }
+  (* a store into the old node keeps the state of the new one *)
+  assert (Skeep : forall hk Nk pmk o, split_st ref a' hk root4 Nk pmk -> split_st ref a' (store hk a o) root4 Nk pmk).
+  { intros hk Nk pmk o [W L R A K4' X Z]. constructor; try assumption.
+    - apply hwf_store; [exact W|]. lia.
+    - rewrite slot_read_store_other; [exact R|]. destruct ref as [| |a0 i0]; cbn [ref_away ref_addr_ne] in *; try exact I.
+      intros E. apply Hra. symmetry. exact E.
+    - unfold nodeat. rewrite load_store_other by (intros E; apply (Hlt' a); [rewrite Hl; discriminate|symmetry; exact E]). exact A. }
+  assert (Hu1 : u32_of_int (Z.of_nat P + 1) = N.of_nat (S P)).
+  { replace (Z.of_nat P + 1)%Z with (Z.of_nat (S P)) by lia. apply u32_of_nat. lia. }
+  assert (Hsub : subw 32 (N.of_nat p0) (N.of_nat (S P)) = N.of_nat (p0 - S P)).
+  { unfold subw. unfold M32 in Hp32. change (2 ^ 32) with 4294967296. lia. }
+  assert (Hshd : forall v px, s_prefix px (s_prefixLen v n) = xset_hdr n (N.to_nat v) px).
+  { intros v px. rewrite xset_hdr_s_node. unfold s_prefix, s_prefixLen. rewrite xh_s_node, s_node_s_node. reflexivity. }
+  cbv zeta. fold p0 pfx. rewrite ES0, EP0.
+  destruct (Nat.leb_spec p0 maxPrefixLen) as [Hs|Hb].
+  - (* the inline bytes hold the whole path *)
+    replace (N.of_nat p0 <=? N.of_nat maxPrefixLen) with true by lia.
+    rewrite (Epfx Hs). rewrite idx_bytes_nat, (Epfx Hs).
+    set (npl := (p0 - S P)%nat). set (npx := copy_into pfx (skipn (S P) pfx)).
+    assert (Hnpx : length npx = maxPrefixLen) by (subst npx; rewrite copy_into_length; exact Hpl).
+    destruct (split_add ref a' h6 root4 N0 pm0 (tl os) x (AInner a (xset_hdr n npl npx)) S6 Haw) as (Ead1 & S7 & EX1 & Ek1 & El1);
+      [rewrite Hl0z; reflexivity|exact Hx256|rewrite HkN0; reflexivity|].
+    cbv zeta in Ead1. cbn [aref] in Ead1. rewrite Ead1. cbv beta iota zeta.
+    set (N1 := fst (xadd N0 x (AInner a (xset_hdr n npl npx)) (tl os) (apool pm0))) in *.
+    set (pm1 := snd (xadd (xmap strip N0) x (strip (AInner a (xset_hdr n npl npx))) (tl os) pm0)) in *.
+    set (h7 := store h6 a' (HNode (xmap aref N1))) in *.
+    assert (Aa7 : nodeat h7 a n) by (unfold nodeat; subst h7; rewrite load_store_other by (apply Hlt'; rewrite Hl; discriminate); exact Aa6).
+    assert (E9 : h_prefixLen h7 a = N.of_nat p0) by (unfold h_prefixLen; rewrite (h_hdr_at _ _ _ Aa7); reflexivity).
+    rewrite E9, Hu1, Hsub. rewrite (set_prefixLen_at h7 a _ _ Aa7).
+    set (h8 := store h7 a (HNode (xmap aref (s_prefixLen (N.of_nat (p0 - S P)) n)))).
+    assert (Aa8 : nodeat h8 a (s_prefixLen (N.of_nat (p0 - S P)) n)) by apply nodeat_store.
+    assert (E10 : h_prefix h8 a = pfx).
+    { unfold h_prefix. rewrite (h_hdr_at _ _ _ Aa8). unfold s_prefixLen. rewrite xh_s_node. reflexivity. }
+    rewrite E10. replace (Z.of_nat P + 1)%Z with (Z.of_nat (S P)) by lia. rewrite (slice_from_nat pfx (S P)) by lia.
+    rewrite (set_prefix_at h8 a _ _ Aa8), Hshd, Nat2N.id, gcopy0_copy_into. fold npl npx.
+    set (h9 := store h8 a (HNode (xmap aref (xset_hdr n npl npx)))).
+    cbn [strip] in EX1. rewrite xset_hdr_xmap.
+    change (snd (xadd (xmap strip N0) x (XInner (xmap strip (xset_hdr n npl npx))) (tl os) pm0)) with pm1.
+    rewrite EX1.
+    apply (Htail npl npx h9 _ pm1 N1 Hnpx).
+    + subst h9 h8. apply Skeep. apply Skeep. exact S7.
+    + apply nodeat_store.
+    + intros y Hy Hya. subst h9 h8 h7. rewrite !load_store_other by (try exact Hya; subst a'; lia). apply G6. exact Hy.
+    + rewrite Ek1, HkN0. reflexivity.
+    + rewrite El1, Hl0z. reflexivity.
+  - (* the path is longer than the inline bytes: the branch byte and the rest come from the minimum leaf *)
+    replace (N.of_nat p0 <=? N.of_nat maxPrefixLen) with false by lia.
+    rewrite Elk.
+    set (npl := (p0 - (P + 1))%nat). set (npx := copy_into pfx (skipn (d + P + 1) ltk)).
+    assert (Hnpx : length npx = maxPrefixLen) by (subst npx; rewrite copy_into_length; exact Hpl).
+    rewrite Hu1, Hsub.
+    assert (St6 : stored h6 (AInner a n)).
+    { apply (stored_frame h); [exact Hst|]. intros y Hy. rewrite G6 by (eapply live_lt; eauto). apply G4; [eapply live_lt; eauto|].
+      destruct ref as [| |a0 i0]; cbn [ref_addr_ne slot_out] in *; try exact I. intros ->. contradiction. }
+    assert (Hb6 : forall y, live (AInner a n) y -> (y < next h6)%nat).
+    { intros y Hy. destruct S6 as [_ L6 _ _ _ _ _]. pose proof (live_lt h _ _ Hw Hst Hy). subst a'. lia. }
+    rewrite (h_minimum_set_prefixLen h6 a n _ d St6 Hsep Hb6 Hwf).
+    destruct (h_minimum_spec h6 (AInner a n) d St6 Hsep Hb6 Hwf) as (gk' & tk' & v' & Emin & Emin').
+    cbn [aref] in Emin. rewrite Emin. rewrite Hmin in Emin'. injection Emin' as <- <- <-.
+    cbn [cast_leaf xleaf_tk]. rewrite <- Nat2Z.inj_add, idx_bytes_nat, Elk.
+    rewrite (set_prefixLen_at h6 a _ _ Aa6).
+    set (h7 := store h6 a (HNode (xmap aref (s_prefixLen (N.of_nat (p0 - S P)) n)))).
+    assert (S7 : split_st ref a' h7 root4 N0 pm0) by (apply Skeep; exact S6).
+    destruct (split_add ref a' h7 root4 N0 pm0 (tl os) x (AInner a (xset_hdr n npl npx)) S7 Haw) as (Ead1 & S8 & EX1 & Ek1 & El1);
+      [rewrite Hl0z; reflexivity|exact Hx256|rewrite HkN0; reflexivity|].
+    cbv zeta in Ead1. cbn [aref] in Ead1. rewrite Ead1. cbv beta iota zeta.
+    set (N1 := fst (xadd N0 x (AInner a (xset_hdr n npl npx)) (tl os) (apool pm0))) in *.
+    set (pm1 := snd (xadd (xmap strip N0) x (strip (AInner a (xset_hdr n npl npx))) (tl os) pm0)) in *.
+    set (h8 := store h7 a' (HNode (xmap aref N1))) in *.
+    assert (Aa8 : nodeat h8 a (s_prefixLen (N.of_nat (p0 - S P)) n)).
+    { unfold nodeat. subst h8 h7. rewrite load_store_other by (apply Hlt'; rewrite Hl; discriminate). apply load_store_same. }
+    assert (E10 : h_prefix h8 a = pfx).
+    { unfold h_prefix. rewrite (h_hdr_at _ _ _ Aa8). unfold s_prefixLen. rewrite xh_s_node. reflexivity. }
+    rewrite E10. replace (Z.of_nat (d + P) + 1)%Z with (Z.of_nat (d + P + 1)) by lia.
+    rewrite (slice_from_nat ltk (d + P + 1)) by (assert (d + P < length ltk)%nat by (apply nth_error_Some; rewrite Elk; discriminate); lia).
+    rewrite (set_prefix_at h8 a _ _ Aa8), Hshd, Nat2N.id, gcopy0_copy_into.
+    replace (p0 - S P)%nat with npl by (subst npl; lia). fold npx.
+    set (h9 := store h8 a (HNode (xmap aref (xset_hdr n npl npx)))).
+    cbn [strip] in EX1. rewrite xset_hdr_xmap.
+    change (snd (xadd (xmap strip N0) x (XInner (xmap strip (xset_hdr n npl npx))) (tl os) pm0)) with pm1.
+    rewrite EX1. rewrite ?Nat2Z.inj_add.
+    apply (Htail npl npx h9 _ pm1 N1 Hnpx).
+    + subst h9. apply Skeep. exact S8.
+    + apply nodeat_store.
+    + intros y Hy Hya. subst h9 h8 h7. rewrite !load_store_other by (try exact Hya; subst a'; lia). apply G6. exact Hy.
+    + rewrite Ek1, HkN0. reflexivity.
+    + rewrite El1, Hl0z. reflexivity.
+Qed.
+
+(* a step that changed the heap only inside the footprint or above the old next, and did not touch *ref *)
+Lemma framed_keep_alloc : forall h root ref cur r0 h1,
+  hwf h -> slot_read h root ref = Some r0 -> slot_out ref cur -> (next h <= next h1)%nat ->
+  (forall x, (x < next h \/ next h1 <= x)%nat -> ~ live cur x -> load h1 x = load h x) ->
+  framed h root h1 root ref cur r0.
+Proof.
+  intros h root ref cur r0 h1 Hw Hrd Hout Hn Hfr. split; [exact Hn|].
+  destruct ref as [| |a0 i0]; cbn [slot_out] in Hout; [contradiction| |].
+  - cbn [slot_read] in Hrd. injection Hrd as ->. split; [reflexivity|exact Hfr].
+  - destruct (slot_read_inv _ _ _ _ _ Hrd) as (nd & Hl & Hnth & Hlt).
+    split; [reflexivity|]. split; [intros x H0 Hx _; apply Hfr; assumption|].
+    exists nd. split; [exact Hl|]. split; [exact Hlt|].
+    unfold href in *. replace (set_at i0 r0 (xch nd)) with (xch nd) by (symmetry; apply set_at_same; exact Hnth).
+    rewrite s_children_id, Hfr; [exact Hl| |exact Hout]. left. apply hwf_lt; [exact Hw|rewrite Hl; discriminate].
+Qed.
+
+(* nl.value = val *)
+Lemma overwrite_ok : forall size os pm h root ref a gk0 tk0 v0 val,
+  hwf h -> stored h (ALeaf a gk0 tk0 v0) -> slot_read h root ref = Some (Some a) -> slot_out ref (ALeaf a gk0 tk0 v0) ->
+  zero_pool pm ->
+  ins_ok size os pm h root ref (ALeaf a gk0 tk0 v0)
+    (MDone (h_set_leaf_value h a val) root size os (map_pool pm) tt) (XIDone (XLeaf gk0 tk0 val) false, os, pm).
+Proof.
+  intros size os pm h root ref a gk0 tk0 v0 val Hw Hst Hrd Hout Hzp.
+  pose proof (stored_load _ _ Hst) as Hl. cbn [aref aobj] in Hl.
+  assert (Ha : (a < next h)%nat) by (apply hwf_lt; [exact Hw|rewrite Hl; discriminate]).
+  unfold h_set_leaf_value. rewrite Hl. cbn [ins_ok fst snd].
+  repeat (split; [reflexivity|]). split; [exact Hzp|]. split; [apply hwf_store; assumption|].
+  exists (ALeaf a gk0 tk0 val). split; [reflexivity|]. split; [constructor; apply load_store_same|]. split; [constructor|].
+  split; [intros x Hx; apply live_leaf in Hx; subst x; left; apply (live_root (ALeaf a gk0 tk0 v0))|].
+  apply framed_keep; [exact Hrd|exact Hout|reflexivity|].
+  intros x Hx. apply load_store_other. intros ->. apply Hx. apply (live_root (ALeaf a gk0 tk0 v0)).
+Qed.
+
+(* return: nothing stored *)
+Lemma unchanged_ok : forall size os pm h root ref cur,
+  hwf h -> stored h cur -> sep cur -> slot_read h root ref = Some (Some (aref cur)) -> slot_out ref cur -> zero_pool pm ->
+  ins_ok size os pm h root ref cur (MDone h root size os (map_pool pm) tt) (XIDone (strip cur) false, os, pm).
+Proof.
+  intros size os pm h root ref cur Hw Hst Hsep Hrd Hout Hzp. cbn [ins_ok fst snd].
+  repeat (split; [reflexivity|]). split; [exact Hzp|]. split; [exact Hw|].
+  exists cur. split; [reflexivity|]. split; [exact Hst|]. split; [exact Hsep|]. split; [auto|].
+  apply framed_keep; [exact Hrd|exact Hout|reflexivity|reflexivity].
+Qed.
+
+(* ref.addChild(keyS[depth], leafRef) with a new leaf *)
+Lemma add_leaf_ok : forall size os pm h root ref a n b gk tk val,
+  hwf h -> stored h (AInner a n) -> sep (AInner a n) -> slot_read h root ref = Some (Some a) -> slot_out ref (AInner a n) ->
+  zero_pool pm -> b < 256 -> xfind n b = None ->
+  let h1 := snd (alloc h (HLeaf gk tk val)) in
+  let A := xadd (xmap strip n) b (XLeaf gk tk val) os pm in
+  exists h2, h_addChild h1 root ref b (Some (next h)) os (map_pool pm) =
+               Some (h2, skipn (xadd_gets (xmap strip n)) os, map_pool (snd A)) /\
+    ins_ok size os pm h root ref (AInner a n)
+      (MDone h2 root (size + 1) (skipn (xadd_gets (xmap strip n)) os) (map_pool (snd A)) tt)
+      (XIDone (XInner (fst A)) true, skipn (xadd_gets (xmap strip n)) os, snd A).
+Proof.
+  intros size os pm h root ref a n b gk tk val Hw Hst Hsep Hrd Hout Hzp Hb Hf h1 A.
+  destruct (stored_inv _ _ _ Hst) as (Hl & Hx & Hk). destruct (sep_inv _ _ Hsep) as (S1 & S2 & S3).
+  destruct (alloc_spec h (HLeaf gk tk val)) as (_ & Hla & Hfa & Hna). fold h1 in Hla, Hfa, Hna.
+  set (lnew := next h) in *. set (newL := ALeaf lnew gk tk val).
+  assert (Ha : (a < next h)%nat) by (apply hwf_lt; [exact Hw|rewrite Hl; discriminate]).
+  assert (Hass : assoc b (kids n) = None).
+  { unfold kids. rewrite <- nfind_spec by (try apply Hx; exact Hb). rewrite <- xfind_abs by exact Hx. exact Hf. }
+  assert (Hrd1 : slot_read h1 root ref = Some (Some a)).
+  { destruct ref as [| |a0 i0]; try exact Hrd. cbn [slot_read] in *. destruct (load h a0) as [o0|] eqn:E0; [|discriminate Hrd].
+    rewrite Hfa by (intros ->; rewrite (Hw lnew) in E0 by (subst lnew; lia); discriminate). rewrite E0. exact Hrd. }
+  assert (At1 : nodeat h1 a n) by (unfold nodeat; rewrite Hfa by (subst lnew; lia); exact Hl).
+  pose proof (addChild_step h1 root ref a n b newL os pm Hrd1 At1 Hx Hzp Hb Hass) as Est. cbn [aref newL] in Est.
+  destruct (xadd_three n b newL os pm Hx Hzp Hb Hass) as (_ & E2 & Hz & Hx' & Ek). cbn [strip newL] in E2.
+  set (N' := fst (xadd n b newL os (apool pm))) in *.
+  exists (store h1 a (HNode (xmap aref N'))). split; [exact Est|]. fold A in E2, Hz.
+  set (h2 := store h1 a (HNode (xmap aref N'))).
+  cbn [ins_ok fst snd]. repeat (split; [reflexivity|]). split; [exact Hz|].
+  split; [apply hwf_store; [apply hwf_alloc; exact Hw|rewrite Hna; subst lnew; lia]|].
+  assert (Hold : forall y, y <> a -> y <> lnew -> load h2 y = load h y).
+  { intros y H1 H2. subst h2. rewrite load_store_other by exact H1. apply Hfa. exact H2. }
+  exists (AInner a N'). split; [cbn [strip]; rewrite E2; reflexivity|].
+  assert (Hkid : forall b1 c1, In (b1, c1) (kids N') -> (b1 = b /\ c1 = newL) \/ (b1 <> b /\ In (b1, c1) (kids n))).
+  { intros b1 c1 H1. rewrite Ek in H1. apply in_ins_sorted in H1. destruct H1 as [E|H1]; [injection E as -> ->; left; auto|].
+    right. split; [|exact H1]. intros ->. pose proof (kid_assoc n b c1 Hx H1) as E. rewrite Hass in E. discriminate. }
+  assert (Hlt_old : forall y, live (AInner a n) y -> (y < next h)%nat) by (intros y Hy; eapply live_lt; eauto).
+  split; [|split; [|split]].
+  - constructor; [apply load_store_same|exact Hx'|]. intros b1 c1 H1. destruct (Hkid _ _ H1) as [(-> & ->)|(Hne & Hin1)].
+    + constructor. subst h2. rewrite load_store_other by (subst lnew; lia). exact Hla.
+    + apply (stored_frame h); [apply (Hk _ _ Hin1)|]. intros y Hy. apply Hold.
+      * intros ->. exact (S2 _ _ Hin1 Hy).
+      * pose proof (Hlt_old y (live_kid _ _ _ _ _ Hin1 Hy)). subst lnew. lia.
+  - constructor.
+    + intros b1 c1 H1. destruct (Hkid _ _ H1) as [(-> & ->)|(Hne & Hin1)]; [constructor|apply (S1 _ _ Hin1)].
+    + intros b1 c1 H1 Hy. destruct (Hkid _ _ H1) as [(-> & ->)|(Hne & Hin1)].
+      * apply live_leaf in Hy. subst lnew. lia.
+      * exact (S2 _ _ Hin1 Hy).
+    + intros b1 c1 b2 c2 y H1 H2 Hne L1 L2.
+      destruct (Hkid _ _ H1) as [(-> & ->)|(Hne1 & Hin1)]; destruct (Hkid _ _ H2) as [(-> & ->)|(Hne2 & Hin2)].
+      * contradiction.
+      * apply live_leaf in L1. subst y. pose proof (Hlt_old lnew (live_kid _ _ _ _ _ Hin2 L2)). subst lnew. lia.
+      * apply live_leaf in L2. subst y. pose proof (Hlt_old lnew (live_kid _ _ _ _ _ Hin1 L1)). subst lnew. lia.
+      * exact (S3 b1 c1 b2 c2 y Hin1 Hin2 Hne L1 L2).
+  - intros y Hy. destruct (live_inv _ _ Hy) as [->|(a1 & n1 & b1 & c1 & E & H1 & L1)]; [left; apply (live_root (AInner a n))|].
+    injection E as <- <-. destruct (Hkid _ _ H1) as [(-> & ->)|(Hne & Hin1)].
+    + apply live_leaf in L1. subst y. right. subst lnew. lia.
+    + left. eapply live_kid; eauto.
+  - cbn [aref]. apply framed_keep_alloc; [exact Hw|exact Hrd|exact Hout|subst h2; rewrite next_store, Hna; subst lnew; lia|].
+    intros y Hy Hnl. apply Hold; [intros ->; apply Hnl; apply (live_root (AInner a n))|].
+    subst h2. rewrite next_store, Hna in Hy. subst lnew. lia.
+Qed.
+
+(* the uint32 field prefixLen holds every path length of the tree *)
+Inductive afit32 : atree -> Prop :=
+| afit32_leaf : forall a gk tk v, afit32 (ALeaf a gk tk v)
+| afit32_inner : forall a n, N.of_nat (xplen (xh n)) < M32 -> (forall b c, In (b, c) (kids n) -> afit32 c) -> afit32 (AInner a n).
+Lemma afit32_inv : forall a n, afit32 (AInner a n) ->
+  N.of_nat (xplen (xh n)) < M32 /\ (forall b c, In (b, c) (kids n) -> afit32 c).
+Proof. intros a n H. inversion H; subst. auto. Qed.
+
+(* what the descent below an inner node needs of the child (as in PoolTreeFacts.xinsert_sim) *)
+Lemma descend_facts : forall (nm : xnode xtree) tk d b c,
+  xwf nm -> WF d (Inner (nabs nm)) -> shares d tk (leaves (Inner (nabs nm))) -> (d <= length tk)%nat ->
+  (xplen (xh nm) = 0%nat \/ (xplen (xh nm) <= prefixMismatch (nabs nm) tk d)%nat) ->
+  nth_error tk (d + xplen (xh nm)) = Some b -> In (b, c) (nenum (xabs nm)) ->
+  WF (S (d + xplen (xh nm))) (tabs c) /\ shares (S (d + xplen (xh nm))) tk (leaves (tabs c)) /\
+  (S (d + xplen (xh nm)) <= length tk)%nat.
+Proof.
+  intros nm tk d b c Hx Hwf Hsh Hd Hcase Eb Hin.
+  destruct (split_facts (nabs nm) tk d Hwf Hsh Hd) as (lm & Hmin & _ & Hdesc).
+  rewrite nhdr_nabs in Hdesc. cbn [xabs_hdr prefixLen] in Hdesc. set (p0 := xplen (xh nm)) in *.
+  assert (Hall : forall l, In l (leaves (Inner (nabs nm))) -> firstn (d + p0) (ltk l) = firstn (d + p0) tk) by (apply Hdesc; exact Hcase).
+  pose proof (in_nenum_nabs nm b c Hin) as Hin'.
+  destruct (WF_child d (nabs nm) b (tabs c) Hwf Hin') as [Hwc HFc].
+  rewrite nhdr_nabs in Hwc, HFc. cbn [xabs_hdr prefixLen] in Hwc, HFc. fold p0 in Hwc, HFc.
+  replace (d + p0 + 1)%nat with (S (d + p0)) in Hwc by lia.
+  split; [exact Hwc|]. split.
+  - unfold shares. apply Forall_forall. intros l Hl. rewrite Forall_forall in HFc.
+    rewrite (firstn_S_snoc _ _ _ (HFc l Hl)), (firstn_S_snoc _ _ _ Eb).
+    rewrite (Hall l) by (apply in_leaves_inner; exists b, (tabs c); split; assumption). reflexivity.
+  - apply nth_error_Some. congruence.
+Qed.
+
+Definition ins_loop_spec (L : nat -> heap -> href -> Z -> list choice -> hpool -> slot -> href -> Z -> mres unit)
+                         (gk tk : list N) (val : Z) : Prop :=
+  forall fuel h root size os pm ref cur d,
+    hwf h -> stored h cur -> sep cur -> slot_read h root ref = Some (Some (aref cur)) -> slot_out ref cur ->
+    zero_pool pm -> isbytes tk = true -> WF d (tabs (strip cur)) -> shares d tk (leaves (tabs (strip cur))) ->
+    (d <= length tk)%nat -> N.of_nat (length gk) < M32 -> N.of_nat (length tk) < M32 -> afit32 cur ->
+    ins_ok size os pm h root ref cur
+      (L fuel h root size os (map_pool pm) ref (Some (aref cur)) (Z.of_nat d))
+      (xinsert fuel (strip cur) gk tk val d os pm).
+
+Lemma alpha_insert_loop_sim : forall val keyS, ins_loop_spec (fun fuel => g_alpha_insert_loop1 fuel val keyS) keyS keyS val.
+Proof.
+  intros val keyS. unfold ins_loop_spec.
+  induction fuel as [|f IH]; intros h root size os pm ref cur d Hw Hst Hsep Hrd Hout Hzp Hbt Hwf Hsh Hd Hlg Hlt Hfit.
+  - cbn [g_alpha_insert_loop1]. rewrite Hrd. reflexivity.
+  - destruct cur as [a gk0 tk0 v0|a n].
+    + (* a leaf *)
+      pose proof (h_tag_stored _ _ Hst) as Ht. cbn [aref atag] in Ht, Hrd |- *.
+      destruct (h_cast_leaf_stored _ _ _ _ _ Hst) as (Hc & Hg & _).
+      cbn [g_alpha_insert_loop1]. rewrite !Hrd. cbn [href_is_nil negb]. rewrite Ht. cbn [gkind_eqb negb]. rewrite Hc, Hg.
+      cbn [strip].
+      assert (Hb0 : isbytes tk0 = true) by (cbn [strip tabs] in Hwf; inversion Hwf; assumption).
+      destruct (beq keyS gk0) eqn:Eb.
+      * cbn [xinsert]. rewrite Eb. apply overwrite_ok; assumption.
+      * exact (leaf_split_ok keyS keyS val h root size os pm ref a gk0 tk0 v0 d f Hw Hst Hrd Hout Hzp Hb0 Hbt Hd Hlg Hlt Eb).
+    + (* an inner node *)
+      destruct (stored_inv _ _ _ Hst) as (Hl & Hx & Hk). destruct (sep_inv _ _ Hsep) as (S1 & S2 & S3).
+      destruct (afit32_inv _ _ Hfit) as (F32 & Fk).
+      pose proof (h_tag_stored _ _ Hst) as Ht. cbn [aref] in Ht, Hrd |- *.
+      cbn [g_alpha_insert_loop1]. rewrite !Hrd. cbn [href_is_nil negb]. rewrite Ht, atag_inner. cbn [negb].
+      rewrite (h_ref_node_stored _ _ _ Hst).
+      assert (Hb_live : forall y, live (AInner a n) y -> (y < next h)%nat) by (intros; eapply live_lt; eauto).
+      assert (EpL : h_prefixLen h a = N.of_nat (xplen (xh n))) by (unfold h_prefixLen; rewrite (h_hdr_stored _ _ _ Hst); reflexivity).
+      rewrite !EpL.
+      pose proof (Hwf) as Hwf0.
+      cbn [strip] in Hwf, Hsh. rewrite tabs_inner in Hwf, Hsh.
+      pose proof (xwf_xmap strip n Hx) as Hxm.
+      destruct (split_facts (nabs (xmap strip n)) keyS d Hwf Hsh Hd) as (lm & Hmin & Hsplit & _).
+      rewrite nhdr_nabs, xh_xmap in Hsplit. cbn [xabs_hdr prefixLen prefix] in Hsplit.
+      cbn [strip xinsert]. rewrite tabs_inner, xh_xmap.
+      set (p0 := xplen (xh n)) in *. set (P := prefixMismatch (nabs (xmap strip n)) keyS d) in *.
+      destruct (Nat.eqb_spec p0 0) as [E0|E0].
+      * replace (N.of_nat p0 =? 0) with true by lia. cbn [negb andb].
+        replace (d + p0)%nat with d by lia.
+        destruct (nth_error keyS (d)) as [b|] eqn:Enth.
+        2:{ replace (Z.of_nat (length keyS) <=? Z.of_nat (d))%Z with true
+              by (symmetry; apply Z.leb_le; apply nth_error_None in Enth; lia).
+            apply (unchanged_ok size os pm h root ref (AInner a n)); assumption. }
+        replace (Z.of_nat (length keyS) <=? Z.of_nat (d))%Z with false
+          by (symmetry; apply Z.leb_gt; assert (d < length keyS)%nat by (apply nth_error_Some; rewrite Enth; discriminate); lia).
+        rewrite !idx_bytes_nat, Enth.
+        pose proof (nth_byte _ _ _ Hbt Enth) as Hb.
+        pose proof (findChild_stored _ _ _ b Hst Hb) as FC. rewrite xfind_xmap.
+        destruct (xfind n b) as [c|] eqn:Ef; cbn [omap].
+        -- destruct FC as (i & -> & Hnth & Hrep). cbn [slot_is_nil negb].
+           pose proof (kid_of_find _ _ _ Hx Hb Ef) as Hin. pose proof (Hk _ _ Hin) as Hs.
+           rewrite (slot_read_cell _ _ _ _ _ _ Hst Hnth).
+           replace (Z.of_nat d + 1)%Z with (Z.of_nat (S d)) by lia.
+           assert (Hinm : In (b, strip c) (nenum (xabs (xmap strip n)))).
+           { rewrite nenum_xabs_xmap. apply in_map_iff. exists (b, c). split; [reflexivity|exact Hin]. }
+           destruct (descend_facts (xmap strip n) keyS d b (strip c) Hxm Hwf Hsh Hd) as (Wc & Shc & Lc);
+             [rewrite xh_xmap; fold p0 P; left; exact E0|rewrite xh_xmap; fold p0; replace (d + p0)%nat with d by lia; exact Enth|exact Hinm|].
+           rewrite xh_xmap in Wc, Shc, Lc. fold p0 in Wc, Shc, Lc. replace (d + p0)%nat with d in Wc, Shc, Lc by lia.
+           pose proof (IH h root size os pm (SCell a i) c (S d) Hw Hs (S1 _ _ Hin)
+                         (slot_read_cell _ root _ _ _ _ Hst Hnth) (S2 _ _ Hin) Hzp Hbt Wc Shc Lc Hlg Hlt (Fk _ _ Hin)) as R.
+           apply (ins_up size os pm h root ref a n b c i _ _ Hw Hst Hsep Hrd Hout Hb Hin Hnth Hrep) in R.
+           exact R.
+        -- rewrite FC. cbn [slot_is_nil negb]. rewrite (mk_leaf_full keyS keyS val Hlg Hlt).
+           rewrite (surjective_pairing (alloc h (HLeaf keyS keyS val))). cbv beta iota zeta.
+           destruct (alloc_spec h (HLeaf keyS keyS val)) as (Eal & _). rewrite Eal.
+           destruct (add_leaf_ok size os pm h root ref a n b keyS keyS val Hw Hst Hsep Hrd Hout Hzp Hb Ef) as (h2 & Est & Hok).
+           rewrite Est. exact Hok.
+      * replace (N.of_nat p0 =? 0) with false by lia. cbn [negb andb].
+        rewrite (h_prefixMismatch_spec h a n keyS d d Hst Hsep Hb_live Hwf0). fold P.
+        replace (Z.of_N (N.of_nat p0) <=? Z.of_nat P)%Z with (negb (P <? p0)%nat)
+          by (destruct (Nat.ltb_spec P p0); destruct (Z.leb_spec (Z.of_N (N.of_nat p0)) (Z.of_nat P)); try reflexivity; lia).
+        destruct (Nat.ltb_spec P p0) as [HP|HP]; cbn [negb].
+        -- (* the compressed-path split *)
+           destruct (Hsplit HP) as (x & Hx256 & Elk & Epfx & Hne2).
+           destruct lm as [[lgk ltk0] lv]. cbn [to_leaf ltk] in Hmin, Elk.
+           rewrite Hmin. cbn [leaf_tk].
+           exact (path_split_ok keyS keyS val h root size os pm ref a n d P x lgk ltk0 lv Hw Hst Hsep Hrd Hout Hzp Hbt Hlg Hlt F32 Hwf0 HP Hmin Hx256 Elk Epfx Hne2).
+        -- replace (Z.of_nat d + Z.of_N (N.of_nat p0))%Z with (Z.of_nat (d + p0)) by lia.
+        destruct (nth_error keyS (d + p0)) as [b|] eqn:Enth.
+        2:{ replace (Z.of_nat (length keyS) <=? Z.of_nat (d + p0))%Z with true
+              by (symmetry; apply Z.leb_le; apply nth_error_None in Enth; lia).
+            apply (unchanged_ok size os pm h root ref (AInner a n)); assumption. }
+        replace (Z.of_nat (length keyS) <=? Z.of_nat (d + p0))%Z with false
+          by (symmetry; apply Z.leb_gt; assert (d + p0 < length keyS)%nat by (apply nth_error_Some; rewrite Enth; discriminate); lia).
+        rewrite !idx_bytes_nat, Enth.
+        pose proof (nth_byte _ _ _ Hbt Enth) as Hb.
+        pose proof (findChild_stored _ _ _ b Hst Hb) as FC. rewrite xfind_xmap.
+        destruct (xfind n b) as [c|] eqn:Ef; cbn [omap].
+        ++ destruct FC as (i & -> & Hnth & Hrep). cbn [slot_is_nil negb].
+           pose proof (kid_of_find _ _ _ Hx Hb Ef) as Hin. pose proof (Hk _ _ Hin) as Hs.
+           rewrite (slot_read_cell _ _ _ _ _ _ Hst Hnth).
+           replace (Z.of_nat (d + p0) + 1)%Z with (Z.of_nat (S (d + p0))) by lia.
+           assert (Hinm : In (b, strip c) (nenum (xabs (xmap strip n)))).
+           { rewrite nenum_xabs_xmap. apply in_map_iff. exists (b, c). split; [reflexivity|exact Hin]. }
+           destruct (descend_facts (xmap strip n) keyS d b (strip c) Hxm Hwf Hsh Hd) as (Wc & Shc & Lc);
+             [rewrite xh_xmap; fold p0 P; right; exact HP|rewrite xh_xmap; fold p0; exact Enth|exact Hinm|].
+           rewrite xh_xmap in Wc, Shc, Lc. fold p0 in Wc, Shc, Lc. 
+           pose proof (IH h root size os pm (SCell a i) c (S (d + p0)) Hw Hs (S1 _ _ Hin)
+                         (slot_read_cell _ root _ _ _ _ Hst Hnth) (S2 _ _ Hin) Hzp Hbt Wc Shc Lc Hlg Hlt (Fk _ _ Hin)) as R.
+           apply (ins_up size os pm h root ref a n b c i _ _ Hw Hst Hsep Hrd Hout Hb Hin Hnth Hrep) in R.
+           exact R.
+        ++ rewrite FC. cbn [slot_is_nil negb]. rewrite (mk_leaf_full keyS keyS val Hlg Hlt).
+           rewrite (surjective_pairing (alloc h (HLeaf keyS keyS val))). cbv beta iota zeta.
+           destruct (alloc_spec h (HLeaf keyS keyS val)) as (Eal & _). rewrite Eal.
+           destruct (add_leaf_ok size os pm h root ref a n b keyS keyS val Hw Hst Hsep Hrd Hout Hzp Hb Ef) as (h2 & Est & Hok).
+           rewrite Est. exact Hok.
+Qed.
+
+Lemma collation_insert_loop_sim : forall val keyS colKey, ins_loop_spec (fun fuel => g_collation_insert_loop1 fuel val keyS colKey) keyS colKey val.
+Proof.
+  intros val keyS colKey. unfold ins_loop_spec.
+  induction fuel as [|f IH]; intros h root size os pm ref cur d Hw Hst Hsep Hrd Hout Hzp Hbt Hwf Hsh Hd Hlg Hlt Hfit.
+  - cbn [g_collation_insert_loop1]. rewrite Hrd. reflexivity.
+  - destruct cur as [a gk0 tk0 v0|a n].
+    + (* a leaf *)
+      pose proof (h_tag_stored _ _ Hst) as Ht. cbn [aref atag] in Ht, Hrd |- *.
+      destruct (h_cast_leaf_stored _ _ _ _ _ Hst) as (Hc & Hg & _).
+      cbn [g_collation_insert_loop1]. rewrite !Hrd. cbn [href_is_nil negb]. rewrite Ht. cbn [gkind_eqb negb]. rewrite Hc, Hg.
+      cbn [strip].
+      assert (Hb0 : isbytes tk0 = true) by (cbn [strip tabs] in Hwf; inversion Hwf; assumption).
+      destruct (beq keyS gk0) eqn:Eb.
+      * cbn [xinsert]. rewrite Eb. apply overwrite_ok; assumption.
+      * exact (leaf_split_ok keyS colKey val h root size os pm ref a gk0 tk0 v0 d f Hw Hst Hrd Hout Hzp Hb0 Hbt Hd Hlg Hlt Eb).
+    + (* an inner node *)
+      destruct (stored_inv _ _ _ Hst) as (Hl & Hx & Hk). destruct (sep_inv _ _ Hsep) as (S1 & S2 & S3).
+      destruct (afit32_inv _ _ Hfit) as (F32 & Fk).
+      pose proof (h_tag_stored _ _ Hst) as Ht. cbn [aref] in Ht, Hrd |- *.
+      cbn [g_collation_insert_loop1]. rewrite !Hrd. cbn [href_is_nil negb]. rewrite Ht, atag_inner. cbn [negb].
+      rewrite (h_ref_node_stored _ _ _ Hst).
+      assert (Hb_live : forall y, live (AInner a n) y -> (y < next h)%nat) by (intros; eapply live_lt; eauto).
+      assert (EpL : h_prefixLen h a = N.of_nat (xplen (xh n))) by (unfold h_prefixLen; rewrite (h_hdr_stored _ _ _ Hst); reflexivity).
+      rewrite !EpL.
+      pose proof (Hwf) as Hwf0.
+      cbn [strip] in Hwf, Hsh. rewrite tabs_inner in Hwf, Hsh.
+      pose proof (xwf_xmap strip n Hx) as Hxm.
+      destruct (split_facts (nabs (xmap strip n)) colKey d Hwf Hsh Hd) as (lm & Hmin & Hsplit & _).
+      rewrite nhdr_nabs, xh_xmap in Hsplit. cbn [xabs_hdr prefixLen prefix] in Hsplit.
+      cbn [strip xinsert]. rewrite tabs_inner, xh_xmap.
+      set (p0 := xplen (xh n)) in *. set (P := prefixMismatch (nabs (xmap strip n)) colKey d) in *.
+      destruct (Nat.eqb_spec p0 0) as [E0|E0].
+      * replace (N.of_nat p0 =? 0) with true by lia. cbn [negb andb].
+        replace (d + p0)%nat with d by lia.
+        destruct (nth_error colKey (d)) as [b|] eqn:Enth.
+        2:{ replace (Z.of_nat (length colKey) <=? Z.of_nat (d))%Z with true
+              by (symmetry; apply Z.leb_le; apply nth_error_None in Enth; lia).
+            apply (unchanged_ok size os pm h root ref (AInner a n)); assumption. }
+        replace (Z.of_nat (length colKey) <=? Z.of_nat (d))%Z with false
+          by (symmetry; apply Z.leb_gt; assert (d < length colKey)%nat by (apply nth_error_Some; rewrite Enth; discriminate); lia).
+        rewrite !idx_bytes_nat, Enth.
+        pose proof (nth_byte _ _ _ Hbt Enth) as Hb.
+        pose proof (findChild_stored _ _ _ b Hst Hb) as FC. rewrite xfind_xmap.
+        destruct (xfind n b) as [c|] eqn:Ef; cbn [omap].
+        -- destruct FC as (i & -> & Hnth & Hrep). cbn [slot_is_nil negb].
+           pose proof (kid_of_find _ _ _ Hx Hb Ef) as Hin. pose proof (Hk _ _ Hin) as Hs.
+           rewrite (slot_read_cell _ _ _ _ _ _ Hst Hnth).
+           replace (Z.of_nat d + 1)%Z with (Z.of_nat (S d)) by lia.
+           assert (Hinm : In (b, strip c) (nenum (xabs (xmap strip n)))).
+           { rewrite nenum_xabs_xmap. apply in_map_iff. exists (b, c). split; [reflexivity|exact Hin]. }
+           destruct (descend_facts (xmap strip n) colKey d b (strip c) Hxm Hwf Hsh Hd) as (Wc & Shc & Lc);
+             [rewrite xh_xmap; fold p0 P; left; exact E0|rewrite xh_xmap; fold p0; replace (d + p0)%nat with d by lia; exact Enth|exact Hinm|].
+           rewrite xh_xmap in Wc, Shc, Lc. fold p0 in Wc, Shc, Lc. replace (d + p0)%nat with d in Wc, Shc, Lc by lia.
+           pose proof (IH h root size os pm (SCell a i) c (S d) Hw Hs (S1 _ _ Hin)
+                         (slot_read_cell _ root _ _ _ _ Hst Hnth) (S2 _ _ Hin) Hzp Hbt Wc Shc Lc Hlg Hlt (Fk _ _ Hin)) as R.
+           apply (ins_up size os pm h root ref a n b c i _ _ Hw Hst Hsep Hrd Hout Hb Hin Hnth Hrep) in R.
+           exact R.
+        -- rewrite FC. cbn [slot_is_nil negb]. rewrite (mk_leaf_full keyS colKey val Hlg Hlt).
+           rewrite (surjective_pairing (alloc h (HLeaf keyS colKey val))). cbv beta iota zeta.
+           destruct (alloc_spec h (HLeaf keyS colKey val)) as (Eal & _). rewrite Eal.
+           destruct (add_leaf_ok size os pm h root ref a n b keyS colKey val Hw Hst Hsep Hrd Hout Hzp Hb Ef) as (h2 & Est & Hok).
+           rewrite Est. exact Hok.
+      * replace (N.of_nat p0 =? 0) with false by lia. cbn [negb andb].
+        rewrite (h_prefixMismatch_spec h a n colKey d d Hst Hsep Hb_live Hwf0). fold P.
+        replace (Z.of_N (N.of_nat p0) <=? Z.of_nat P)%Z with (negb (P <? p0)%nat)
+          by (destruct (Nat.ltb_spec P p0); destruct (Z.leb_spec (Z.of_N (N.of_nat p0)) (Z.of_nat P)); try reflexivity; lia).
+        destruct (Nat.ltb_spec P p0) as [HP|HP]; cbn [negb].
+        -- (* the compressed-path split *)
+           destruct (Hsplit HP) as (x & Hx256 & Elk & Epfx & Hne2).
+           destruct lm as [[lgk ltk0] lv]. cbn [to_leaf ltk] in Hmin, Elk.
+           rewrite Hmin. cbn [leaf_tk].
+           exact (path_split_ok keyS colKey val h root size os pm ref a n d P x lgk ltk0 lv Hw Hst Hsep Hrd Hout Hzp Hbt Hlg Hlt F32 Hwf0 HP Hmin Hx256 Elk Epfx Hne2).
+        -- replace (Z.of_nat d + Z.of_N (N.of_nat p0))%Z with (Z.of_nat (d + p0)) by lia.
+        destruct (nth_error colKey (d + p0)) as [b|] eqn:Enth.
+        2:{ replace (Z.of_nat (length colKey) <=? Z.of_nat (d + p0))%Z with true
+              by (symmetry; apply Z.leb_le; apply nth_error_None in Enth; lia).
+            apply (unchanged_ok size os pm h root ref (AInner a n)); assumption. }
+        replace (Z.of_nat (length colKey) <=? Z.of_nat (d + p0))%Z with false
+          by (symmetry; apply Z.leb_gt; assert (d + p0 < length colKey)%nat by (apply nth_error_Some; rewrite Enth; discriminate); lia).
+        rewrite !idx_bytes_nat, Enth.
+        pose proof (nth_byte _ _ _ Hbt Enth) as Hb.
+        pose proof (findChild_stored _ _ _ b Hst Hb) as FC. rewrite xfind_xmap.
+        destruct (xfind n b) as [c|] eqn:Ef; cbn [omap].
+        ++ destruct FC as (i & -> & Hnth & Hrep). cbn [slot_is_nil negb].
+           pose proof (kid_of_find _ _ _ Hx Hb Ef) as Hin. pose proof (Hk _ _ Hin) as Hs.
+           rewrite (slot_read_cell _ _ _ _ _ _ Hst Hnth).
+           replace (Z.of_nat (d + p0) + 1)%Z with (Z.of_nat (S (d + p0))) by lia.
+           assert (Hinm : In (b, strip c) (nenum (xabs (xmap strip n)))).
+           { rewrite nenum_xabs_xmap. apply in_map_iff. exists (b, c). split; [reflexivity|exact Hin]. }
+           destruct (descend_facts (xmap strip n) colKey d b (strip c) Hxm Hwf Hsh Hd) as (Wc & Shc & Lc);
+             [rewrite xh_xmap; fold p0 P; right; exact HP|rewrite xh_xmap; fold p0; exact Enth|exact Hinm|].
+           rewrite xh_xmap in Wc, Shc, Lc. fold p0 in Wc, Shc, Lc. 
+           pose proof (IH h root size os pm (SCell a i) c (S (d + p0)) Hw Hs (S1 _ _ Hin)
+                         (slot_read_cell _ root _ _ _ _ Hst Hnth) (S2 _ _ Hin) Hzp Hbt Wc Shc Lc Hlg Hlt (Fk _ _ Hin)) as R.
+           apply (ins_up size os pm h root ref a n b c i _ _ Hw Hst Hsep Hrd Hout Hb Hin Hnth Hrep) in R.
+           exact R.
+        ++ rewrite FC. cbn [slot_is_nil negb]. rewrite (mk_leaf_full keyS colKey val Hlg Hlt).
+           rewrite (surjective_pairing (alloc h (HLeaf keyS colKey val))). cbv beta iota zeta.
+           destruct (alloc_spec h (HLeaf keyS colKey val)) as (Eal & _). rewrite Eal.
+           destruct (add_leaf_ok size os pm h root ref a n b keyS colKey val Hw Hst Hsep Hrd Hout Hzp Hb Ef) as (h2 & Est & Hok).
+           rewrite Est. exact Hok.
+Qed.
+
+(* ================= E. Insert at the root ================= *)
+(* every compressed-path length of the tree fits the uint32 field *)
+Inductive xfit32 : xtree -> Prop :=
+| xfit32_leaf : forall gk tk v, xfit32 (XLeaf gk tk v)
+| xfit32_inner : forall n, N.of_nat (xplen (xh n)) < M32 -> (forall b c, In (b, c) (nenum (xabs n)) -> xfit32 c) -> xfit32 (XInner n).
+Lemma afit32_of_xfit32 : forall h t, stored h t -> xfit32 (strip t) -> afit32 t.
+Proof.
+  intros h t H. induction H as [a gk tk v Hl|a n Hl Hx Hk IH]; intros Hf; [constructor|].
+  cbn [strip] in Hf. inversion Hf as [|n0 H4 Hkf E]; subst n0. rewrite xh_xmap in H4. constructor; [exact H4|].
+  intros b c Hin. apply (IH b c Hin). apply (Hkf b). rewrite nenum_xabs_xmap. apply in_map_iff.
+  exists (b, c). split; [reflexivity|exact Hin].
+Qed.
+
+(* an Insert method: the key preparation, the empty tree, then the loop from &t.root *)
+Definition insert_top (L : nat -> heap -> href -> Z -> list choice -> hpool -> slot -> href -> Z -> mres unit)
+    (gk tk : list N) (val : Z) (fuel : nat) (h : heap) (root : href) (size : Z) (os : list choice) (p : hpool) : mres unit :=
+  if href_is_nil root then
+    let '(l, h) := alloc h (h_mk_leaf gk (u32_of_int (Z.of_nat (List.length gk))) tk (u32_of_int (Z.of_nat (List.length tk))) val) in
+    MDone h (Some l) (size + 1)%Z os p tt
+  else match slot_read h root SRoot with None => MPanic | Some v => L fuel h root size os p SRoot v 0%Z end.
+
+Theorem insert_top_sim : forall L gk tk val, ins_loop_spec L gk tk val ->
+  forall h root ot F size os pm,
+  repr_root h root ot F -> hwf h -> zero_pool pm -> isbytes tk = true ->
+  N.of_nat (length gk) < M32 -> N.of_nat (length tk) < M32 ->
+  match ot with Some t => WF 0 (tabs t) /\ xfit32 t | None => True end ->
+  let m := xdo_insert (mkXstate ot size) gk tk val os pm in
+  match insert_top L gk tk val (key_fuel tk) h root size os (map_pool pm) with
+  | MDone h' root' size' os' p' _ =>
+      snd (fst m) = OUnit /\ size' = xsize (fst (fst m)) /\ p' = map_pool (snd m) /\ zero_pool (snd m) /\ hwf h' /\
+      exists F', repr_root h' root' (xroot (fst (fst m))) F' /\ (forall x, F' x -> F x \/ (next h <= x)%nat) /\
+                 (forall x, (x < next h)%nat -> ~ F x -> load h' x = load h x)
+  | MPanic => snd (fst m) = OPanic
+  | MFuel => snd (fst m) = OFuel
+  end.
+Proof.
+  intros L gk tk val HL h root ot F size os pm (Hr & Hbd) Hw Hzp Hbt Hlg Hlt Hinv m. subst m. unfold insert_top, xdo_insert.
+  destruct root as [r|]; destruct ot as [t|]; cbn [repr_root] in Hr; try contradiction; cbn [href_is_nil xroot slot_read].
+  2:{ rewrite (mk_leaf_full gk tk val Hlg Hlt), (surjective_pairing (alloc h (HLeaf gk tk val))).
+      destruct (alloc_spec h (HLeaf gk tk val)) as (Ea & Hla & Hfa & Hna). rewrite Ea.
+      cbn [fst snd xsize xroot]. repeat (split; [reflexivity|]). split; [exact Hzp|]. split; [apply hwf_alloc; exact Hw|].
+      exists (fun x => x = next h). split; [split|split].
+      - exists (ALeaf (next h) gk tk val). split; [reflexivity|]. split; [reflexivity|]. split; [constructor; exact Hla|].
+        split; [constructor|]. intros x. split; [intros ->; apply (live_root (ALeaf (next h) gk tk val))|apply live_leaf].
+      - intros x ->. rewrite Hna. lia.
+      - intros x ->. right. lia.
+      - intros x Hx _. apply Hfa. lia. }
+  destruct Hr as (at_ & <- & <- & Hst & Hsep & HF). destruct Hinv as (Hwf & Hf32).
+  assert (Hsh : shares 0 tk (leaves (tabs (strip at_)))).
+  { unfold shares. apply Forall_forall. intros l _. reflexivity. }
+  pose proof (HL (key_fuel tk) h (Some (aref at_)) size os pm SRoot at_ 0%nat Hw Hst Hsep eq_refl I Hzp Hbt Hwf Hsh
+                 (Nat.le_0_l _) Hlg Hlt (afit32_of_xfit32 _ _ Hst Hf32)) as R.
+  cbn [Z.of_nat] in R. unfold ins_ok in R.
+  destruct (L (key_fuel tk) h (Some (aref at_)) size os (map_pool pm) SRoot (Some (aref at_)) 0%Z) as [h' root' size' os' p' u| |];
+    destruct (xinsert (key_fuel tk) (strip at_) gk tk val 0 os pm) as [[res osm] pmm];
+    cbn [fst snd] in R |- *; destruct res as [t' added| |]; cbn [fst snd xsize xroot]; try contradiction; try discriminate R;
+    try reflexivity.
+  destruct R as (-> & -> & -> & Hzp' & Hw' & cur' & <- & Hst' & Hsep' & Hsub & Hfr).
+  split; [reflexivity|]. split; [destruct added; reflexivity|]. split; [reflexivity|]. split; [exact Hzp'|]. split; [exact Hw'|].
+  destruct Hfr as (Hnx & -> & Hframe).
+  exists (live cur'). split; [split|split].
+  - exists cur'. split; [reflexivity|]. split; [reflexivity|]. split; [exact Hst'|]. split; [exact Hsep'|]. intros x; reflexivity.
+  - intros x Hx. eapply live_lt; eauto.
+  - intros x Hx. destruct (Hsub _ Hx) as [L1|L1]; [left; apply HF; exact L1|right; exact L1].
+  - intros x Hx Hn. apply Hframe; [left; exact Hx|]. intros Hl. apply Hn. apply HF. exact Hl.
+Qed.
+
+Theorem gen_alpha_insert_sim : forall h root ot F size keyS val os pm,
+  repr_root h root ot F -> hwf h -> zero_pool pm -> isbytes (keyS ++ [0]) = true ->
+  N.of_nat (length (keyS ++ [0])) < M32 -> N.of_nat (length (keyS ++ [0])) < M32 ->
+  match ot with Some t => WF 0 (tabs t) /\ xfit32 t | None => True end ->
+  let m := xdo_insert (mkXstate ot size) (keyS ++ [0]) (keyS ++ [0]) val os pm in
+  match g_alpha_insert (key_fuel (keyS ++ [0])) h root size keyS val os (map_pool pm) with
+  | MDone h' root' size' os' p' _ =>
+      snd (fst m) = OUnit /\ size' = xsize (fst (fst m)) /\ p' = map_pool (snd m) /\ zero_pool (snd m) /\ hwf h' /\
+      exists F', repr_root h' root' (xroot (fst (fst m))) F' /\ (forall x, F' x -> F x \/ (next h <= x)%nat) /\
+                 (forall x, (x < next h)%nat -> ~ F x -> load h' x = load h x)
+  | MPanic => snd (fst m) = OPanic
+  | MFuel => snd (fst m) = OFuel
+  end.
+Proof.
+  intros h root ot F size keyS val os pm.
+  exact (insert_top_sim _ (keyS ++ [0]) (keyS ++ [0]) val (alpha_insert_loop_sim val (keyS ++ [0])) h root ot F size os pm).
+Qed.
+
+(* the five trees of trees.go are instances of one template: the loop of Insert of the other four is, as regenerated
+   TEXT, the loop of alphaSortedTree (a syntactic check: an edit of one instance fails here at once) *)
+Ltac same_text a b := let a' := eval cbv delta [a] in a in let b' := eval cbv delta [b] in b in constr_eq a' b'.
+Lemma unsigned_insert_loop_is_alpha : g_unsigned_insert_loop1 = g_alpha_insert_loop1.
+Proof. same_text g_unsigned_insert_loop1 g_alpha_insert_loop1. reflexivity. Qed.
+Lemma signed_insert_loop_is_alpha : g_signed_insert_loop1 = g_alpha_insert_loop1.
+Proof. same_text g_signed_insert_loop1 g_alpha_insert_loop1. reflexivity. Qed.
+Lemma float_insert_loop_is_alpha : g_float_insert_loop1 = g_alpha_insert_loop1.
+Proof. same_text g_float_insert_loop1 g_alpha_insert_loop1. reflexivity. Qed.
+Lemma compound_insert_loop_is_alpha : g_compound_insert_loop1 = g_alpha_insert_loop1.
+Proof. same_text g_compound_insert_loop1 g_alpha_insert_loop1. reflexivity. Qed.
+
+Theorem gen_unsigned_insert_sim : forall h root ot F size keyS val os pm,
+  repr_root h root ot F -> hwf h -> zero_pool pm -> isbytes keyS = true ->
+  N.of_nat (length keyS) < M32 -> N.of_nat (length keyS) < M32 ->
+  match ot with Some t => WF 0 (tabs t) /\ xfit32 t | None => True end ->
+  let m := xdo_insert (mkXstate ot size) keyS keyS val os pm in
+  match g_unsigned_insert (key_fuel keyS) h root size keyS val os (map_pool pm) with
+  | MDone h' root' size' os' p' _ =>
+      snd (fst m) = OUnit /\ size' = xsize (fst (fst m)) /\ p' = map_pool (snd m) /\ zero_pool (snd m) /\ hwf h' /\
+      exists F', repr_root h' root' (xroot (fst (fst m))) F' /\ (forall x, F' x -> F x \/ (next h <= x)%nat) /\
+                 (forall x, (x < next h)%nat -> ~ F x -> load h' x = load h x)
+  | MPanic => snd (fst m) = OPanic
+  | MFuel => snd (fst m) = OFuel
+  end.
+Proof.
+  intros h root ot F size keyS val os pm. unfold g_unsigned_insert. rewrite unsigned_insert_loop_is_alpha.
+  exact (insert_top_sim _ keyS keyS val (alpha_insert_loop_sim val keyS) h root ot F size os pm).
+Qed.
+
+Theorem gen_signed_insert_sim : forall h root ot F size keyS val os pm,
+  repr_root h root ot F -> hwf h -> zero_pool pm -> isbytes keyS = true ->
+  N.of_nat (length keyS) < M32 -> N.of_nat (length keyS) < M32 ->
+  match ot with Some t => WF 0 (tabs t) /\ xfit32 t | None => True end ->
+  let m := xdo_insert (mkXstate ot size) keyS keyS val os pm in
+  match g_signed_insert (key_fuel keyS) h root size keyS val os (map_pool pm) with
+  | MDone h' root' size' os' p' _ =>
+      snd (fst m) = OUnit /\ size' = xsize (fst (fst m)) /\ p' = map_pool (snd m) /\ zero_pool (snd m) /\ hwf h' /\
+      exists F', repr_root h' root' (xroot (fst (fst m))) F' /\ (forall x, F' x -> F x \/ (next h <= x)%nat) /\
+                 (forall x, (x < next h)%nat -> ~ F x -> load h' x = load h x)
+  | MPanic => snd (fst m) = OPanic
+  | MFuel => snd (fst m) = OFuel
+  end.
+Proof.
+  intros h root ot F size keyS val os pm. unfold g_signed_insert. rewrite signed_insert_loop_is_alpha.
+  exact (insert_top_sim _ keyS keyS val (alpha_insert_loop_sim val keyS) h root ot F size os pm).
+Qed.
+
+Theorem gen_float_insert_sim : forall h root ot F size keyS val os pm,
+  repr_root h root ot F -> hwf h -> zero_pool pm -> isbytes keyS = true ->
+  N.of_nat (length keyS) < M32 -> N.of_nat (length keyS) < M32 ->
+  match ot with Some t => WF 0 (tabs t) /\ xfit32 t | None => True end ->
+  let m := xdo_insert (mkXstate ot size) keyS keyS val os pm in
+  match g_float_insert (key_fuel keyS) h root size keyS val os (map_pool pm) with
+  | MDone h' root' size' os' p' _ =>
+      snd (fst m) = OUnit /\ size' = xsize (fst (fst m)) /\ p' = map_pool (snd m) /\ zero_pool (snd m) /\ hwf h' /\
+      exists F', repr_root h' root' (xroot (fst (fst m))) F' /\ (forall x, F' x -> F x \/ (next h <= x)%nat) /\
+                 (forall x, (x < next h)%nat -> ~ F x -> load h' x = load h x)
+  | MPanic => snd (fst m) = OPanic
+  | MFuel => snd (fst m) = OFuel
+  end.
+Proof.
+  intros h root ot F size keyS val os pm. unfold g_float_insert. rewrite float_insert_loop_is_alpha.
+  exact (insert_top_sim _ keyS keyS val (alpha_insert_loop_sim val keyS) h root ot F size os pm).
+Qed.
+
+Theorem gen_compound_insert_sim : forall h root ot F size keyS val os pm,
+  repr_root h root ot F -> hwf h -> zero_pool pm -> isbytes keyS = true ->
+  N.of_nat (length keyS) < M32 -> N.of_nat (length keyS) < M32 ->
+  match ot with Some t => WF 0 (tabs t) /\ xfit32 t | None => True end ->
+  let m := xdo_insert (mkXstate ot size) keyS keyS val os pm in
+  match g_compound_insert (key_fuel keyS) h root size keyS val os (map_pool pm) with
+  | MDone h' root' size' os' p' _ =>
+      snd (fst m) = OUnit /\ size' = xsize (fst (fst m)) /\ p' = map_pool (snd m) /\ zero_pool (snd m) /\ hwf h' /\
+      exists F', repr_root h' root' (xroot (fst (fst m))) F' /\ (forall x, F' x -> F x \/ (next h <= x)%nat) /\
+                 (forall x, (x < next h)%nat -> ~ F x -> load h' x = load h x)
+  | MPanic => snd (fst m) = OPanic
+  | MFuel => snd (fst m) = OFuel
+  end.
+Proof.
+  intros h root ot F size keyS val os pm. unfold g_compound_insert. rewrite compound_insert_loop_is_alpha.
+  exact (insert_top_sim _ keyS keyS val (alpha_insert_loop_sim val keyS) h root ot F size os pm).
+Qed.
+
+Theorem gen_collation_insert_sim : forall h root ot F size keyS colKey val os pm,
+  repr_root h root ot F -> hwf h -> zero_pool pm -> isbytes colKey = true ->
+  N.of_nat (length keyS) < M32 -> N.of_nat (length colKey) < M32 ->
+  match ot with Some t => WF 0 (tabs t) /\ xfit32 t | None => True end ->
+  let m := xdo_insert (mkXstate ot size) keyS colKey val os pm in
+  match g_collation_insert (key_fuel colKey) h root size keyS colKey val os (map_pool pm) with
+  | MDone h' root' size' os' p' _ =>
+      snd (fst m) = OUnit /\ size' = xsize (fst (fst m)) /\ p' = map_pool (snd m) /\ zero_pool (snd m) /\ hwf h' /\
+      exists F', repr_root h' root' (xroot (fst (fst m))) F' /\ (forall x, F' x -> F x \/ (next h <= x)%nat) /\
+                 (forall x, (x < next h)%nat -> ~ F x -> load h' x = load h x)
+  | MPanic => snd (fst m) = OPanic
+  | MFuel => snd (fst m) = OFuel
+  end.
+Proof.
+  intros h root ot F size keyS colKey val os pm.
+  exact (insert_top_sim _ keyS colKey val (collation_insert_loop_sim val keyS colKey) h root ot F size os pm).
+Qed.
+
+(* t.size after Insert: +1 exactly when the model adds a key *)
+Corollary delete_top_hwf : forall L gk tk, del_loop_spec L gk tk -> del_leaf_spec L gk ->
+  forall h root ot F size os pm,
+  repr_root h root ot F -> hwf h -> zero_pool pm -> isbytes tk = true -> match ot with Some t => xfit t | None => True end ->
+  match delete_top L (key_fuel tk) h root size os (map_pool pm) with
+  | MDone h' _ _ _ _ _ => hwf h'
+  | _ => True
+  end.
+Proof.
+  intros L gk tk HL HLf h root ot F size os pm Hr Hw Hzp Hbt Hfit.
+  pose proof (delete_top_sim L gk tk HL HLf h root ot F size os pm Hr Hzp Hbt Hfit) as H. cbv zeta in H.
+  destruct (delete_top L (key_fuel tk) h root size os (map_pool pm)) as [h' root' size' os' p' ret| |]; try exact I.
+  destruct H as (_ & _ & _ & _ & Hn & F' & _ & _ & Hfr). intros x Hx. rewrite Hn in Hx.
+  rewrite Hfr; [apply Hw; exact Hx|]. intros HFx. pose proof (proj2 Hr x HFx). lia.
+Qed.
+
+(* the hypotheses of the Insert theorem hold on the three-key heap, and both sides compute the same there *)
+Definition ex3_ops : list op := [Insert (AB [97]) 1%Z; Insert (AB [98]) 2%Z; Insert (AB [99]) 3%Z].
+Example ex3_is_model : xroot (fst (xalone KAlpha xinit ex3_ops)) = Some (strip ex3_tree).
+Proof. vm_compute. reflexivity. Qed.
+Example ex3_insert_hyps : hwf ex3_heap /\ WF 0 (tabs (strip ex3_tree)) /\ xfit32 (strip ex3_tree).
+Proof.
+  split; [|split].
+  - intros x Hx. cbn in Hx. unfold load, ex3_heap, alloc. cbn [cells snd next heap0].
+    destruct (Nat.eqb_spec x 3); [lia|]. destruct (Nat.eqb_spec x 2); [lia|]. destruct (Nat.eqb_spec x 1); [lia|].
+    destruct (Nat.eqb_spec x 0); [lia|]. reflexivity.
+  - apply (hyps_reachable KAlpha ex3_ops (strip ex3_tree)); [vm_compute; reflexivity|exact ex3_is_model].
+  - destruct ex3_xwf as (_ & Hk). unfold kids in Hk.
+    assert (Hks : nenum (xabs (xmap strip ex3_node)) = [(97, strip ex3_l1); (98, strip ex3_l2); (99, strip ex3_l3)])
+      by (rewrite nenum_xabs_xmap, Hk; reflexivity).
+    cbn [strip ex3_tree]. apply xfit32_inner.
+    + rewrite xh_xmap. vm_compute. reflexivity.
+    + intros b c Hin. rewrite Hks in Hin. destruct Hin as [E|[E|[E|[]]]]; injection E as _ <-; constructor.
+Qed.
+Example ex3_insert_thm : True.
+Proof.
+  destruct ex3_insert_hyps as (H1 & H2 & H3).
+  pose proof (gen_alpha_insert_sim ex3_heap (Some 3%nat) (Some (strip ex3_tree)) _ 3 [98; 98] 7 [] []
+                ex3_repr H1 (Forall_nil _) eq_refl ltac:(vm_compute; reflexivity) ltac:(vm_compute; reflexivity) (conj H2 H3)) as H.
+  exact I.
+Qed.
+Example ex3_insert_runs :
+  match g_alpha_insert (key_fuel [98; 98; 0]) ex3_heap (Some 3%nat) 3 [98; 98] 7 [] [] with
+  | MDone h' root' size' _ _ _ =>
+      size' = 4%Z /\
+      option_map tabs (h_reify h' root') =
+        option_map tabs (xroot (fst (fst (xdo_insert (mkXstate (Some (strip ex3_tree)) 3) [98; 98; 0] [98; 98; 0] 7 [] []))))
+  | _ => False
+  end.
+Proof. vm_compute. repeat split. Qed.
+
+(* t.size after Insert is the model's counter (size + 1 exactly when the model stores a new key) *)
+Corollary gen_alpha_insert_size : forall h root ot F size keyS val os pm,
+  repr_root h root ot F -> hwf h -> zero_pool pm -> isbytes (keyS ++ [0]) = true ->
+  N.of_nat (length (keyS ++ [0])) < M32 ->
+  match ot with Some t => WF 0 (tabs t) /\ xfit32 t | None => True end ->
+  match g_alpha_insert (key_fuel (keyS ++ [0])) h root size keyS val os (map_pool pm) with
+  | MDone _ _ size' _ _ _ => size' = xsize (fst (fst (xdo_insert (mkXstate ot size) (keyS ++ [0]) (keyS ++ [0]) val os pm)))
+  | _ => True
+  end.
+Proof.
+  intros h root ot F size keyS val os pm Hr Hw Hzp Hbt Hl Hinv.
+  pose proof (gen_alpha_insert_sim h root ot F size keyS val os pm Hr Hw Hzp Hbt Hl Hl Hinv) as H. cbv zeta in H.
+  destruct (g_alpha_insert _ _ _ _ _ _ _ _); try exact I. apply H.
+Qed.
+Corollary gen_collation_insert_size : forall h root ot F size keyS colKey val os pm,
+  repr_root h root ot F -> hwf h -> zero_pool pm -> isbytes colKey = true ->
+  N.of_nat (length keyS) < M32 -> N.of_nat (length colKey) < M32 ->
+  match ot with Some t => WF 0 (tabs t) /\ xfit32 t | None => True end ->
+  match g_collation_insert (key_fuel colKey) h root size keyS colKey val os (map_pool pm) with
+  | MDone _ _ size' _ _ _ => size' = xsize (fst (fst (xdo_insert (mkXstate ot size) keyS colKey val os pm)))
+  | _ => True
+  end.
+Proof.
+  intros h root ot F size keyS colKey val os pm Hr Hw Hzp Hbt Hl1 Hl2 Hinv.
+  pose proof (gen_collation_insert_sim h root ot F size keyS colKey val os pm Hr Hw Hzp Hbt Hl1 Hl2 Hinv) as H. cbv zeta in H.
+  destruct (g_collation_insert _ _ _ _ _ _ _ _ _); try exact I. apply H.
 Qed.
